@@ -5672,97 +5672,97 @@ const InstDB::RWInfo InstDB::rw_info_a_table[] = {
   { InstDB::RWInfo::kCategoryGeneric   , 2 , { 5 , 3 , 0 , 0 , 0 , 0  } }, // #11 [ref=3x]
   { InstDB::RWInfo::kCategoryGeneric   , 8 , { 10, 3 , 0 , 0 , 0 , 0  } }, // #12 [ref=2x]
   { InstDB::RWInfo::kCategoryGeneric   , 9 , { 10, 5 , 0 , 0 , 0 , 0  } }, // #13 [ref=1x]
-  { InstDB::RWInfo::kCategoryGeneric   , 8 , { 15, 5 , 0 , 0 , 0 , 0  } }, // #14 [ref=1x]
+  { InstDB::RWInfo::kCategoryGeneric   , 8 , { 11, 5 , 0 , 0 , 0 , 0  } }, // #14 [ref=1x]
   { InstDB::RWInfo::kCategoryGeneric   , 0 , { 3 , 3 , 0 , 0 , 0 , 0  } }, // #15 [ref=1x]
   { InstDB::RWInfo::kCategoryGeneric   , 10, { 3 , 3 , 0 , 0 , 0 , 0  } }, // #16 [ref=2x]
   { InstDB::RWInfo::kCategoryGeneric   , 10, { 2 , 3 , 0 , 0 , 0 , 0  } }, // #17 [ref=3x]
-  { InstDB::RWInfo::kCategoryGeneric   , 0 , { 16, 17, 0 , 0 , 0 , 0  } }, // #18 [ref=1x]
+  { InstDB::RWInfo::kCategoryGeneric   , 0 , { 15, 16, 0 , 0 , 0 , 0  } }, // #18 [ref=1x]
   { InstDB::RWInfo::kCategoryGeneric   , 1 , { 3 , 3 , 0 , 0 , 0 , 0  } }, // #19 [ref=1x]
-  { InstDB::RWInfo::kCategoryGeneric   , 14, { 20, 21, 0 , 0 , 0 , 0  } }, // #20 [ref=1x]
+  { InstDB::RWInfo::kCategoryGeneric   , 14, { 19, 20, 0 , 0 , 0 , 0  } }, // #20 [ref=1x]
   { InstDB::RWInfo::kCategoryGeneric   , 4 , { 7 , 7 , 0 , 0 , 0 , 0  } }, // #21 [ref=4x]
   { InstDB::RWInfo::kCategoryGeneric   , 5 , { 9 , 9 , 0 , 0 , 0 , 0  } }, // #22 [ref=4x]
-  { InstDB::RWInfo::kCategoryGeneric   , 0 , { 33, 34, 0 , 0 , 0 , 0  } }, // #23 [ref=1x]
+  { InstDB::RWInfo::kCategoryGeneric   , 0 , { 32, 33, 0 , 0 , 0 , 0  } }, // #23 [ref=1x]
   { InstDB::RWInfo::kCategoryGeneric   , 16, { 2 , 3 , 0 , 0 , 0 , 0  } }, // #24 [ref=1x]
   { InstDB::RWInfo::kCategoryGeneric   , 4 , { 10, 7 , 0 , 0 , 0 , 0  } }, // #25 [ref=10x]
-  { InstDB::RWInfo::kCategoryGeneric   , 3 , { 35, 5 , 0 , 0 , 0 , 0  } }, // #26 [ref=5x]
-  { InstDB::RWInfo::kCategoryGeneric   , 4 , { 36, 7 , 0 , 0 , 0 , 0  } }, // #27 [ref=2x]
-  { InstDB::RWInfo::kCategoryGeneric   , 4 , { 35, 7 , 0 , 0 , 0 , 0  } }, // #28 [ref=11x]
+  { InstDB::RWInfo::kCategoryGeneric   , 3 , { 34, 5 , 0 , 0 , 0 , 0  } }, // #26 [ref=5x]
+  { InstDB::RWInfo::kCategoryGeneric   , 4 , { 35, 7 , 0 , 0 , 0 , 0  } }, // #27 [ref=2x]
+  { InstDB::RWInfo::kCategoryGeneric   , 4 , { 34, 7 , 0 , 0 , 0 , 0  } }, // #28 [ref=11x]
   { InstDB::RWInfo::kCategoryGeneric   , 4 , { 11, 7 , 0 , 0 , 0 , 0  } }, // #29 [ref=9x]
-  { InstDB::RWInfo::kCategoryGeneric   , 4 , { 37, 7 , 0 , 0 , 0 , 0  } }, // #30 [ref=1x]
-  { InstDB::RWInfo::kCategoryGeneric   , 16, { 36, 3 , 0 , 0 , 0 , 0  } }, // #31 [ref=1x]
-  { InstDB::RWInfo::kCategoryGeneric   , 16, { 37, 3 , 0 , 0 , 0 , 0  } }, // #32 [ref=1x]
-  { InstDB::RWInfo::kCategoryGeneric   , 5 , { 36, 9 , 0 , 0 , 0 , 0  } }, // #33 [ref=1x]
+  { InstDB::RWInfo::kCategoryGeneric   , 4 , { 36, 7 , 0 , 0 , 0 , 0  } }, // #30 [ref=1x]
+  { InstDB::RWInfo::kCategoryGeneric   , 16, { 35, 3 , 0 , 0 , 0 , 0  } }, // #31 [ref=1x]
+  { InstDB::RWInfo::kCategoryGeneric   , 16, { 36, 3 , 0 , 0 , 0 , 0  } }, // #32 [ref=1x]
+  { InstDB::RWInfo::kCategoryGeneric   , 5 , { 35, 9 , 0 , 0 , 0 , 0  } }, // #33 [ref=1x]
   { InstDB::RWInfo::kCategoryGeneric   , 5 , { 11, 9 , 0 , 0 , 0 , 0  } }, // #34 [ref=7x]
-  { InstDB::RWInfo::kCategoryGeneric   , 0 , { 38, 39, 0 , 0 , 0 , 0  } }, // #35 [ref=1x]
-  { InstDB::RWInfo::kCategoryGeneric   , 17, { 1 , 40, 0 , 0 , 0 , 0  } }, // #36 [ref=3x]
-  { InstDB::RWInfo::kCategoryGeneric   , 13, { 43, 44, 0 , 0 , 0 , 0  } }, // #37 [ref=3x]
+  { InstDB::RWInfo::kCategoryGeneric   , 0 , { 37, 38, 0 , 0 , 0 , 0  } }, // #35 [ref=1x]
+  { InstDB::RWInfo::kCategoryGeneric   , 17, { 1 , 39, 0 , 0 , 0 , 0  } }, // #36 [ref=3x]
+  { InstDB::RWInfo::kCategoryGeneric   , 13, { 42, 43, 0 , 0 , 0 , 0  } }, // #37 [ref=3x]
   { InstDB::RWInfo::kCategoryGeneric   , 0 , { 4 , 5 , 0 , 0 , 0 , 0  } }, // #38 [ref=2x]
-  { InstDB::RWInfo::kCategoryGeneric   , 0 , { 46, 47, 0 , 0 , 0 , 0  } }, // #39 [ref=6x]
-  { InstDB::RWInfo::kCategoryGeneric   , 0 , { 51, 30, 0 , 0 , 0 , 0  } }, // #40 [ref=1x]
-  { InstDB::RWInfo::kCategoryGeneric   , 0 , { 0 , 51, 0 , 0 , 0 , 0  } }, // #41 [ref=1x]
+  { InstDB::RWInfo::kCategoryGeneric   , 0 , { 45, 46, 0 , 0 , 0 , 0  } }, // #39 [ref=6x]
+  { InstDB::RWInfo::kCategoryGeneric   , 0 , { 50, 29, 0 , 0 , 0 , 0  } }, // #40 [ref=1x]
+  { InstDB::RWInfo::kCategoryGeneric   , 0 , { 0 , 50, 0 , 0 , 0 , 0  } }, // #41 [ref=1x]
   { InstDB::RWInfo::kCategoryImul      , 2 , { 0 , 0 , 0 , 0 , 0 , 0  } }, // #42 [ref=1x]
-  { InstDB::RWInfo::kCategoryGeneric   , 0 , { 52, 53, 0 , 0 , 0 , 0  } }, // #43 [ref=1x]
-  { InstDB::RWInfo::kCategoryGeneric   , 14, { 54, 53, 0 , 0 , 0 , 0  } }, // #44 [ref=1x]
+  { InstDB::RWInfo::kCategoryGeneric   , 0 , { 51, 52, 0 , 0 , 0 , 0  } }, // #43 [ref=1x]
+  { InstDB::RWInfo::kCategoryGeneric   , 14, { 53, 52, 0 , 0 , 0 , 0  } }, // #44 [ref=1x]
   { InstDB::RWInfo::kCategoryGeneric   , 15, { 3 , 5 , 0 , 0 , 0 , 0  } }, // #45 [ref=3x]
-  { InstDB::RWInfo::kCategoryGeneric   , 0 , { 22, 29, 0 , 0 , 0 , 0  } }, // #46 [ref=1x]
-  { InstDB::RWInfo::kCategoryGeneric   , 0 , { 56, 0 , 0 , 0 , 0 , 0  } }, // #47 [ref=1x]
-  { InstDB::RWInfo::kCategoryGeneric   , 23, { 57, 40, 0 , 0 , 0 , 0  } }, // #48 [ref=1x]
-  { InstDB::RWInfo::kCategoryGeneric   , 24, { 45, 9 , 0 , 0 , 0 , 0  } }, // #49 [ref=3x]
-  { InstDB::RWInfo::kCategoryGeneric   , 25, { 35, 7 , 0 , 0 , 0 , 0  } }, // #50 [ref=2x]
-  { InstDB::RWInfo::kCategoryGeneric   , 26, { 49, 13, 0 , 0 , 0 , 0  } }, // #51 [ref=2x]
-  { InstDB::RWInfo::kCategoryGeneric   , 0 , { 57, 40, 0 , 0 , 0 , 0  } }, // #52 [ref=1x]
-  { InstDB::RWInfo::kCategoryGeneric   , 0 , { 45, 9 , 0 , 0 , 0 , 0  } }, // #53 [ref=1x]
-  { InstDB::RWInfo::kCategoryGeneric   , 0 , { 35, 7 , 0 , 0 , 0 , 0  } }, // #54 [ref=3x]
-  { InstDB::RWInfo::kCategoryGeneric   , 0 , { 49, 13, 0 , 0 , 0 , 0  } }, // #55 [ref=1x]
-  { InstDB::RWInfo::kCategoryGeneric   , 0 , { 40, 40, 0 , 0 , 0 , 0  } }, // #56 [ref=2x]
+  { InstDB::RWInfo::kCategoryGeneric   , 0 , { 21, 28, 0 , 0 , 0 , 0  } }, // #46 [ref=1x]
+  { InstDB::RWInfo::kCategoryGeneric   , 0 , { 55, 0 , 0 , 0 , 0 , 0  } }, // #47 [ref=1x]
+  { InstDB::RWInfo::kCategoryGeneric   , 23, { 56, 39, 0 , 0 , 0 , 0  } }, // #48 [ref=1x]
+  { InstDB::RWInfo::kCategoryGeneric   , 24, { 44, 9 , 0 , 0 , 0 , 0  } }, // #49 [ref=3x]
+  { InstDB::RWInfo::kCategoryGeneric   , 25, { 34, 7 , 0 , 0 , 0 , 0  } }, // #50 [ref=2x]
+  { InstDB::RWInfo::kCategoryGeneric   , 26, { 48, 13, 0 , 0 , 0 , 0  } }, // #51 [ref=2x]
+  { InstDB::RWInfo::kCategoryGeneric   , 0 , { 56, 39, 0 , 0 , 0 , 0  } }, // #52 [ref=1x]
+  { InstDB::RWInfo::kCategoryGeneric   , 0 , { 44, 9 , 0 , 0 , 0 , 0  } }, // #53 [ref=1x]
+  { InstDB::RWInfo::kCategoryGeneric   , 0 , { 34, 7 , 0 , 0 , 0 , 0  } }, // #54 [ref=3x]
+  { InstDB::RWInfo::kCategoryGeneric   , 0 , { 48, 13, 0 , 0 , 0 , 0  } }, // #55 [ref=1x]
+  { InstDB::RWInfo::kCategoryGeneric   , 0 , { 39, 39, 0 , 0 , 0 , 0  } }, // #56 [ref=2x]
   { InstDB::RWInfo::kCategoryGeneric   , 0 , { 9 , 9 , 0 , 0 , 0 , 0  } }, // #57 [ref=2x]
   { InstDB::RWInfo::kCategoryGeneric   , 0 , { 7 , 7 , 0 , 0 , 0 , 0  } }, // #58 [ref=2x]
   { InstDB::RWInfo::kCategoryGeneric   , 0 , { 13, 13, 0 , 0 , 0 , 0  } }, // #59 [ref=2x]
   { InstDB::RWInfo::kCategoryGeneric   , 27, { 11, 3 , 0 , 0 , 0 , 0  } }, // #60 [ref=2x]
   { InstDB::RWInfo::kCategoryGeneric   , 15, { 10, 5 , 0 , 0 , 0 , 0  } }, // #61 [ref=5x]
   { InstDB::RWInfo::kCategoryGeneric   , 8 , { 11, 3 , 0 , 0 , 0 , 0  } }, // #62 [ref=1x]
-  { InstDB::RWInfo::kCategoryGeneric   , 0 , { 52, 20, 0 , 0 , 0 , 0  } }, // #63 [ref=1x]
-  { InstDB::RWInfo::kCategoryGeneric   , 0 , { 59, 0 , 0 , 0 , 0 , 0  } }, // #64 [ref=3x]
+  { InstDB::RWInfo::kCategoryGeneric   , 0 , { 51, 19, 0 , 0 , 0 , 0  } }, // #63 [ref=1x]
+  { InstDB::RWInfo::kCategoryGeneric   , 0 , { 58, 0 , 0 , 0 , 0 , 0  } }, // #64 [ref=3x]
   { InstDB::RWInfo::kCategoryMov       , 29, { 0 , 0 , 0 , 0 , 0 , 0  } }, // #65 [ref=1x]
   { InstDB::RWInfo::kCategoryMovabs    , 0 , { 0 , 0 , 0 , 0 , 0 , 0  } }, // #66 [ref=1x]
   { InstDB::RWInfo::kCategoryGeneric   , 30, { 10, 5 , 0 , 0 , 0 , 0  } }, // #67 [ref=6x]
   { InstDB::RWInfo::kCategoryGeneric   , 0 , { 11, 3 , 0 , 0 , 0 , 0  } }, // #68 [ref=18x]
-  { InstDB::RWInfo::kCategoryGeneric   , 0 , { 36, 63, 0 , 0 , 0 , 0  } }, // #69 [ref=1x]
+  { InstDB::RWInfo::kCategoryGeneric   , 0 , { 35, 62, 0 , 0 , 0 , 0  } }, // #69 [ref=1x]
   { InstDB::RWInfo::kCategoryMovh64    , 12, { 0 , 0 , 0 , 0 , 0 , 0  } }, // #70 [ref=2x]
-  { InstDB::RWInfo::kCategoryGeneric   , 0 , { 64, 7 , 0 , 0 , 0 , 0  } }, // #71 [ref=1x]
-  { InstDB::RWInfo::kCategoryGeneric   , 12, { 35, 7 , 0 , 0 , 0 , 0  } }, // #72 [ref=9x]
-  { InstDB::RWInfo::kCategoryGeneric   , 0 , { 57, 5 , 0 , 0 , 0 , 0  } }, // #73 [ref=2x]
-  { InstDB::RWInfo::kCategoryGeneric   , 28, { 45, 9 , 0 , 0 , 0 , 0  } }, // #74 [ref=4x]
-  { InstDB::RWInfo::kCategoryGeneric   , 14, { 54, 20, 0 , 0 , 0 , 0  } }, // #75 [ref=1x]
-  { InstDB::RWInfo::kCategoryGeneric   , 31, { 35, 7 , 0 , 0 , 0 , 0  } }, // #76 [ref=1x]
-  { InstDB::RWInfo::kCategoryGeneric   , 33, { 45, 9 , 0 , 0 , 0 , 0  } }, // #77 [ref=1x]
+  { InstDB::RWInfo::kCategoryGeneric   , 0 , { 63, 7 , 0 , 0 , 0 , 0  } }, // #71 [ref=1x]
+  { InstDB::RWInfo::kCategoryGeneric   , 12, { 34, 7 , 0 , 0 , 0 , 0  } }, // #72 [ref=9x]
+  { InstDB::RWInfo::kCategoryGeneric   , 0 , { 56, 5 , 0 , 0 , 0 , 0  } }, // #73 [ref=2x]
+  { InstDB::RWInfo::kCategoryGeneric   , 28, { 44, 9 , 0 , 0 , 0 , 0  } }, // #74 [ref=4x]
+  { InstDB::RWInfo::kCategoryGeneric   , 14, { 53, 19, 0 , 0 , 0 , 0  } }, // #75 [ref=1x]
+  { InstDB::RWInfo::kCategoryGeneric   , 31, { 34, 7 , 0 , 0 , 0 , 0  } }, // #76 [ref=1x]
+  { InstDB::RWInfo::kCategoryGeneric   , 33, { 44, 9 , 0 , 0 , 0 , 0  } }, // #77 [ref=1x]
   { InstDB::RWInfo::kCategoryGeneric   , 16, { 11, 3 , 0 , 0 , 0 , 0  } }, // #78 [ref=2x]
-  { InstDB::RWInfo::kCategoryGeneric   , 0 , { 17, 29, 0 , 0 , 0 , 0  } }, // #79 [ref=1x]
+  { InstDB::RWInfo::kCategoryGeneric   , 0 , { 16, 28, 0 , 0 , 0 , 0  } }, // #79 [ref=1x]
   { InstDB::RWInfo::kCategoryGeneric   , 11, { 3 , 3 , 0 , 0 , 0 , 0  } }, // #80 [ref=1x]
-  { InstDB::RWInfo::kCategoryGeneric   , 0 , { 53, 22, 0 , 0 , 0 , 0  } }, // #81 [ref=1x]
-  { InstDB::RWInfo::kCategoryGeneric   , 14, { 53, 20, 0 , 0 , 0 , 0  } }, // #82 [ref=1x]
-  { InstDB::RWInfo::kCategoryGeneric   , 4 , { 26, 7 , 0 , 0 , 0 , 0  } }, // #83 [ref=18x]
+  { InstDB::RWInfo::kCategoryGeneric   , 0 , { 52, 21, 0 , 0 , 0 , 0  } }, // #81 [ref=1x]
+  { InstDB::RWInfo::kCategoryGeneric   , 14, { 52, 19, 0 , 0 , 0 , 0  } }, // #82 [ref=1x]
+  { InstDB::RWInfo::kCategoryGeneric   , 4 , { 25, 7 , 0 , 0 , 0 , 0  } }, // #83 [ref=18x]
   { InstDB::RWInfo::kCategoryGeneric   , 36, { 0 , 0 , 0 , 0 , 0 , 0  } }, // #84 [ref=1x]
-  { InstDB::RWInfo::kCategoryGeneric   , 3 , { 69, 5 , 0 , 0 , 0 , 0  } }, // #85 [ref=2x]
+  { InstDB::RWInfo::kCategoryGeneric   , 3 , { 68, 5 , 0 , 0 , 0 , 0  } }, // #85 [ref=2x]
   { InstDB::RWInfo::kCategoryVmov1_8   , 0 , { 0 , 0 , 0 , 0 , 0 , 0  } }, // #86 [ref=2x]
   { InstDB::RWInfo::kCategoryGeneric   , 5 , { 10, 9 , 0 , 0 , 0 , 0  } }, // #87 [ref=4x]
   { InstDB::RWInfo::kCategoryGeneric   , 27, { 10, 13, 0 , 0 , 0 , 0  } }, // #88 [ref=2x]
   { InstDB::RWInfo::kCategoryGeneric   , 0 , { 4 , 0 , 0 , 0 , 0 , 0  } }, // #89 [ref=2x]
   { InstDB::RWInfo::kCategoryGeneric   , 3 , { 5 , 5 , 0 , 0 , 0 , 0  } }, // #90 [ref=1x]
   { InstDB::RWInfo::kCategoryPunpcklxx , 38, { 0 , 0 , 0 , 0 , 0 , 0  } }, // #91 [ref=3x]
-  { InstDB::RWInfo::kCategoryGeneric   , 10, { 2 , 70, 0 , 0 , 0 , 0  } }, // #92 [ref=7x]
-  { InstDB::RWInfo::kCategoryGeneric   , 5 , { 37, 9 , 0 , 0 , 0 , 0  } }, // #93 [ref=3x]
-  { InstDB::RWInfo::kCategoryGeneric   , 0 , { 35, 0 , 0 , 0 , 0 , 0  } }, // #94 [ref=1x]
-  { InstDB::RWInfo::kCategoryGeneric   , 0 , { 16, 51, 0 , 0 , 0 , 0  } }, // #95 [ref=1x]
-  { InstDB::RWInfo::kCategoryGeneric   , 0 , { 22, 21, 0 , 0 , 0 , 0  } }, // #96 [ref=1x]
-  { InstDB::RWInfo::kCategoryGeneric   , 0 , { 54, 22, 0 , 0 , 0 , 0  } }, // #97 [ref=1x]
-  { InstDB::RWInfo::kCategoryGeneric   , 8 , { 43, 3 , 0 , 0 , 0 , 0  } }, // #98 [ref=2x]
-  { InstDB::RWInfo::kCategoryGeneric   , 8 , { 11, 44, 0 , 0 , 0 , 0  } }, // #99 [ref=1x]
-  { InstDB::RWInfo::kCategoryGeneric   , 5 , { 74, 9 , 0 , 0 , 0 , 0  } }, // #100 [ref=2x]
+  { InstDB::RWInfo::kCategoryGeneric   , 10, { 2 , 69, 0 , 0 , 0 , 0  } }, // #92 [ref=7x]
+  { InstDB::RWInfo::kCategoryGeneric   , 5 , { 36, 9 , 0 , 0 , 0 , 0  } }, // #93 [ref=3x]
+  { InstDB::RWInfo::kCategoryGeneric   , 0 , { 34, 0 , 0 , 0 , 0 , 0  } }, // #94 [ref=1x]
+  { InstDB::RWInfo::kCategoryGeneric   , 0 , { 15, 50, 0 , 0 , 0 , 0  } }, // #95 [ref=1x]
+  { InstDB::RWInfo::kCategoryGeneric   , 0 , { 21, 20, 0 , 0 , 0 , 0  } }, // #96 [ref=1x]
+  { InstDB::RWInfo::kCategoryGeneric   , 0 , { 53, 21, 0 , 0 , 0 , 0  } }, // #97 [ref=1x]
+  { InstDB::RWInfo::kCategoryGeneric   , 8 , { 42, 3 , 0 , 0 , 0 , 0  } }, // #98 [ref=2x]
+  { InstDB::RWInfo::kCategoryGeneric   , 8 , { 11, 43, 0 , 0 , 0 , 0  } }, // #99 [ref=1x]
+  { InstDB::RWInfo::kCategoryGeneric   , 5 , { 73, 9 , 0 , 0 , 0 , 0  } }, // #100 [ref=2x]
   { InstDB::RWInfo::kCategoryGeneric   , 21, { 11, 13, 0 , 0 , 0 , 0  } }, // #101 [ref=2x]
-  { InstDB::RWInfo::kCategoryGeneric   , 15, { 75, 5 , 0 , 0 , 0 , 0  } }, // #102 [ref=2x]
+  { InstDB::RWInfo::kCategoryGeneric   , 15, { 74, 5 , 0 , 0 , 0 , 0  } }, // #102 [ref=2x]
   { InstDB::RWInfo::kCategoryGeneric   , 15, { 11, 5 , 0 , 0 , 0 , 0  } }, // #103 [ref=4x]
-  { InstDB::RWInfo::kCategoryGeneric   , 43, { 43, 76, 0 , 0 , 0 , 0  } }, // #104 [ref=4x]
+  { InstDB::RWInfo::kCategoryGeneric   , 43, { 42, 75, 0 , 0 , 0 , 0  } }, // #104 [ref=4x]
   { InstDB::RWInfo::kCategoryGeneric   , 44, { 11, 7 , 0 , 0 , 0 , 0  } }, // #105 [ref=1x]
   { InstDB::RWInfo::kCategoryGeneric   , 45, { 11, 9 , 0 , 0 , 0 , 0  } }, // #106 [ref=1x]
   { InstDB::RWInfo::kCategoryGeneric   , 27, { 13, 13, 0 , 0 , 0 , 0  } }, // #107 [ref=2x]
@@ -5773,26 +5773,26 @@ const InstDB::RWInfo InstDB::rw_info_a_table[] = {
   { InstDB::RWInfo::kCategoryVmov4_1   , 47, { 0 , 0 , 0 , 0 , 0 , 0  } }, // #112 [ref=9x]
   { InstDB::RWInfo::kCategoryGeneric   , 16, { 10, 3 , 0 , 0 , 0 , 0  } }, // #113 [ref=1x]
   { InstDB::RWInfo::kCategoryGeneric   , 27, { 11, 13, 0 , 0 , 0 , 0  } }, // #114 [ref=5x]
-  { InstDB::RWInfo::kCategoryGeneric   , 5 , { 45, 9 , 0 , 0 , 0 , 0  } }, // #115 [ref=1x]
+  { InstDB::RWInfo::kCategoryGeneric   , 5 , { 44, 9 , 0 , 0 , 0 , 0  } }, // #115 [ref=1x]
   { InstDB::RWInfo::kCategoryGeneric   , 14, { 2 , 3 , 0 , 0 , 0 , 0  } }, // #116 [ref=2x]
   { InstDB::RWInfo::kCategoryGeneric   , 57, { 11, 3 , 0 , 0 , 0 , 0  } }, // #117 [ref=12x]
   { InstDB::RWInfo::kCategoryVmovddup  , 38, { 0 , 0 , 0 , 0 , 0 , 0  } }, // #118 [ref=1x]
-  { InstDB::RWInfo::kCategoryGeneric   , 12, { 35, 63, 0 , 0 , 0 , 0  } }, // #119 [ref=2x]
+  { InstDB::RWInfo::kCategoryGeneric   , 12, { 34, 62, 0 , 0 , 0 , 0  } }, // #119 [ref=2x]
   { InstDB::RWInfo::kCategoryVmovmskpd , 0 , { 0 , 0 , 0 , 0 , 0 , 0  } }, // #120 [ref=1x]
   { InstDB::RWInfo::kCategoryVmovmskps , 0 , { 0 , 0 , 0 , 0 , 0 , 0  } }, // #121 [ref=1x]
-  { InstDB::RWInfo::kCategoryGeneric   , 58, { 35, 7 , 0 , 0 , 0 , 0  } }, // #122 [ref=1x]
-  { InstDB::RWInfo::kCategoryGeneric   , 21, { 49, 13, 0 , 0 , 0 , 0  } }, // #123 [ref=1x]
+  { InstDB::RWInfo::kCategoryGeneric   , 58, { 34, 7 , 0 , 0 , 0 , 0  } }, // #122 [ref=1x]
+  { InstDB::RWInfo::kCategoryGeneric   , 21, { 48, 13, 0 , 0 , 0 , 0  } }, // #123 [ref=1x]
   { InstDB::RWInfo::kCategoryGeneric   , 2 , { 3 , 3 , 0 , 0 , 0 , 0  } }, // #124 [ref=4x]
-  { InstDB::RWInfo::kCategoryGeneric   , 17, { 11, 40, 0 , 0 , 0 , 0  } }, // #125 [ref=1x]
+  { InstDB::RWInfo::kCategoryGeneric   , 17, { 11, 39, 0 , 0 , 0 , 0  } }, // #125 [ref=1x]
   { InstDB::RWInfo::kCategoryGeneric   , 0 , { 11, 7 , 0 , 0 , 0 , 0  } }, // #126 [ref=6x]
-  { InstDB::RWInfo::kCategoryGeneric   , 0 , { 35, 3 , 0 , 0 , 0 , 0  } }, // #127 [ref=4x]
+  { InstDB::RWInfo::kCategoryGeneric   , 0 , { 34, 3 , 0 , 0 , 0 , 0  } }, // #127 [ref=4x]
   { InstDB::RWInfo::kCategoryVmov1_4   , 61, { 0 , 0 , 0 , 0 , 0 , 0  } }, // #128 [ref=6x]
   { InstDB::RWInfo::kCategoryVmov1_2   , 48, { 0 , 0 , 0 , 0 , 0 , 0  } }, // #129 [ref=9x]
   { InstDB::RWInfo::kCategoryVmov1_8   , 62, { 0 , 0 , 0 , 0 , 0 , 0  } }, // #130 [ref=3x]
   { InstDB::RWInfo::kCategoryVmov8_1   , 63, { 0 , 0 , 0 , 0 , 0 , 0  } }, // #131 [ref=2x]
   { InstDB::RWInfo::kCategoryGeneric   , 14, { 11, 3 , 0 , 0 , 0 , 0  } }, // #132 [ref=2x]
-  { InstDB::RWInfo::kCategoryGeneric   , 0 , { 86, 5 , 0 , 0 , 0 , 0  } }, // #133 [ref=1x]
-  { InstDB::RWInfo::kCategoryGeneric   , 0 , { 86, 76, 0 , 0 , 0 , 0  } }, // #134 [ref=1x]
+  { InstDB::RWInfo::kCategoryGeneric   , 0 , { 85, 5 , 0 , 0 , 0 , 0  } }, // #133 [ref=1x]
+  { InstDB::RWInfo::kCategoryGeneric   , 0 , { 85, 75, 0 , 0 , 0 , 0  } }, // #134 [ref=1x]
   { InstDB::RWInfo::kCategoryGeneric   , 11, { 2 , 2 , 0 , 0 , 0 , 0  } }, // #135 [ref=1x]
   { InstDB::RWInfo::kCategoryGeneric   , 57, { 2 , 2 , 0 , 0 , 0 , 0  } }  // #136 [ref=1x]
 };
@@ -5807,158 +5807,158 @@ const InstDB::RWInfo InstDB::rw_info_b_table[] = {
   { InstDB::RWInfo::kCategoryGeneric   , 3 , { 4 , 5 , 14, 0 , 0 , 0  } }, // #6 [ref=4x]
   { InstDB::RWInfo::kCategoryGeneric   , 0 , { 2 , 0 , 0 , 0 , 0 , 0  } }, // #7 [ref=1x]
   { InstDB::RWInfo::kCategoryGeneric   , 11, { 3 , 0 , 0 , 0 , 0 , 0  } }, // #8 [ref=2x]
-  { InstDB::RWInfo::kCategoryGeneric   , 0 , { 18, 0 , 0 , 0 , 0 , 0  } }, // #9 [ref=1x]
+  { InstDB::RWInfo::kCategoryGeneric   , 0 , { 17, 0 , 0 , 0 , 0 , 0  } }, // #9 [ref=1x]
   { InstDB::RWInfo::kCategoryGeneric   , 8 , { 3 , 0 , 0 , 0 , 0 , 0  } }, // #10 [ref=21x]
   { InstDB::RWInfo::kCategoryGeneric   , 12, { 7 , 0 , 0 , 0 , 0 , 0  } }, // #11 [ref=5x]
-  { InstDB::RWInfo::kCategoryGeneric   , 13, { 19, 0 , 0 , 0 , 0 , 0  } }, // #12 [ref=1x]
+  { InstDB::RWInfo::kCategoryGeneric   , 13, { 18, 0 , 0 , 0 , 0 , 0  } }, // #12 [ref=1x]
   { InstDB::RWInfo::kCategoryGeneric   , 0 , { 2 , 2 , 3 , 0 , 0 , 0  } }, // #13 [ref=16x]
   { InstDB::RWInfo::kCategoryGeneric   , 4 , { 6 , 7 , 0 , 0 , 0 , 0  } }, // #14 [ref=1x]
   { InstDB::RWInfo::kCategoryGeneric   , 5 , { 8 , 9 , 0 , 0 , 0 , 0  } }, // #15 [ref=1x]
-  { InstDB::RWInfo::kCategoryGeneric   , 11, { 2 , 3 , 22, 0 , 0 , 0  } }, // #16 [ref=1x]
-  { InstDB::RWInfo::kCategoryGeneric   , 15, { 4 , 23, 18, 24, 25, 0  } }, // #17 [ref=1x]
-  { InstDB::RWInfo::kCategoryGeneric   , 12, { 26, 27, 28, 29, 30, 0  } }, // #18 [ref=1x]
-  { InstDB::RWInfo::kCategoryGeneric   , 0 , { 28, 31, 32, 16, 0 , 0  } }, // #19 [ref=1x]
-  { InstDB::RWInfo::kCategoryGeneric   , 0 , { 28, 0 , 0 , 0 , 0 , 0  } }, // #20 [ref=2x]
+  { InstDB::RWInfo::kCategoryGeneric   , 11, { 2 , 3 , 21, 0 , 0 , 0  } }, // #16 [ref=1x]
+  { InstDB::RWInfo::kCategoryGeneric   , 15, { 4 , 22, 17, 23, 24, 0  } }, // #17 [ref=1x]
+  { InstDB::RWInfo::kCategoryGeneric   , 12, { 25, 26, 27, 28, 29, 0  } }, // #18 [ref=1x]
+  { InstDB::RWInfo::kCategoryGeneric   , 0 , { 27, 30, 31, 15, 0 , 0  } }, // #19 [ref=1x]
+  { InstDB::RWInfo::kCategoryGeneric   , 0 , { 27, 0 , 0 , 0 , 0 , 0  } }, // #20 [ref=2x]
   { InstDB::RWInfo::kCategoryGeneric   , 10, { 2 , 0 , 0 , 0 , 0 , 0  } }, // #21 [ref=4x]
-  { InstDB::RWInfo::kCategoryGeneric   , 6 , { 41, 42, 3 , 0 , 0 , 0  } }, // #22 [ref=2x]
-  { InstDB::RWInfo::kCategoryGeneric   , 18, { 45, 5 , 0 , 0 , 0 , 0  } }, // #23 [ref=4x]
+  { InstDB::RWInfo::kCategoryGeneric   , 6 , { 40, 41, 3 , 0 , 0 , 0  } }, // #22 [ref=2x]
+  { InstDB::RWInfo::kCategoryGeneric   , 18, { 44, 5 , 0 , 0 , 0 , 0  } }, // #23 [ref=4x]
   { InstDB::RWInfo::kCategoryGeneric   , 0 , { 4 , 0 , 0 , 0 , 0 , 0  } }, // #24 [ref=1x]
   { InstDB::RWInfo::kCategoryGeneric   , 14, { 3 , 0 , 0 , 0 , 0 , 0  } }, // #25 [ref=17x]
-  { InstDB::RWInfo::kCategoryGeneric   , 0 , { 46, 0 , 0 , 0 , 0 , 0  } }, // #26 [ref=16x]
-  { InstDB::RWInfo::kCategoryGeneric   , 19, { 47, 0 , 0 , 0 , 0 , 0  } }, // #27 [ref=1x]
-  { InstDB::RWInfo::kCategoryGeneric   , 19, { 48, 0 , 0 , 0 , 0 , 0  } }, // #28 [ref=1x]
+  { InstDB::RWInfo::kCategoryGeneric   , 0 , { 45, 0 , 0 , 0 , 0 , 0  } }, // #26 [ref=16x]
+  { InstDB::RWInfo::kCategoryGeneric   , 19, { 46, 0 , 0 , 0 , 0 , 0  } }, // #27 [ref=1x]
+  { InstDB::RWInfo::kCategoryGeneric   , 19, { 47, 0 , 0 , 0 , 0 , 0  } }, // #28 [ref=1x]
   { InstDB::RWInfo::kCategoryGeneric   , 20, { 3 , 0 , 0 , 0 , 0 , 0  } }, // #29 [ref=3x]
-  { InstDB::RWInfo::kCategoryGeneric   , 0 , { 47, 0 , 0 , 0 , 0 , 0  } }, // #30 [ref=6x]
+  { InstDB::RWInfo::kCategoryGeneric   , 0 , { 46, 0 , 0 , 0 , 0 , 0  } }, // #30 [ref=6x]
   { InstDB::RWInfo::kCategoryGeneric   , 14, { 11, 0 , 0 , 0 , 0 , 0  } }, // #31 [ref=3x]
   { InstDB::RWInfo::kCategoryGeneric   , 21, { 13, 0 , 0 , 0 , 0 , 0  } }, // #32 [ref=1x]
   { InstDB::RWInfo::kCategoryGeneric   , 8 , { 11, 0 , 0 , 0 , 0 , 0  } }, // #33 [ref=8x]
-  { InstDB::RWInfo::kCategoryGeneric   , 21, { 49, 0 , 0 , 0 , 0 , 0  } }, // #34 [ref=2x]
-  { InstDB::RWInfo::kCategoryGeneric   , 7 , { 50, 0 , 0 , 0 , 0 , 0  } }, // #35 [ref=2x]
+  { InstDB::RWInfo::kCategoryGeneric   , 21, { 48, 0 , 0 , 0 , 0 , 0  } }, // #34 [ref=2x]
+  { InstDB::RWInfo::kCategoryGeneric   , 7 , { 49, 0 , 0 , 0 , 0 , 0  } }, // #35 [ref=2x]
   { InstDB::RWInfo::kCategoryGeneric   , 20, { 11, 0 , 0 , 0 , 0 , 0  } }, // #36 [ref=2x]
   { InstDB::RWInfo::kCategoryImul      , 22, { 0 , 0 , 0 , 0 , 0 , 0  } }, // #37 [ref=1x]
-  { InstDB::RWInfo::kCategoryGeneric   , 0 , { 40, 0 , 0 , 0 , 0 , 0  } }, // #38 [ref=2x]
+  { InstDB::RWInfo::kCategoryGeneric   , 0 , { 39, 0 , 0 , 0 , 0 , 0  } }, // #38 [ref=2x]
   { InstDB::RWInfo::kCategoryGeneric   , 5 , { 4 , 9 , 0 , 0 , 0 , 0  } }, // #39 [ref=2x]
   { InstDB::RWInfo::kCategoryGeneric   , 0 , { 4 , 5 , 0 , 0 , 0 , 0  } }, // #40 [ref=1x]
-  { InstDB::RWInfo::kCategoryGeneric   , 0 , { 22, 55, 56, 0 , 0 , 0  } }, // #41 [ref=1x]
-  { InstDB::RWInfo::kCategoryGeneric   , 0 , { 57, 40, 40, 0 , 0 , 0  } }, // #42 [ref=6x]
-  { InstDB::RWInfo::kCategoryGeneric   , 0 , { 45, 9 , 9 , 0 , 0 , 0  } }, // #43 [ref=6x]
-  { InstDB::RWInfo::kCategoryGeneric   , 0 , { 35, 7 , 7 , 0 , 0 , 0  } }, // #44 [ref=6x]
-  { InstDB::RWInfo::kCategoryGeneric   , 0 , { 49, 13, 13, 0 , 0 , 0  } }, // #45 [ref=6x]
-  { InstDB::RWInfo::kCategoryGeneric   , 0 , { 57, 40, 0 , 0 , 0 , 0  } }, // #46 [ref=2x]
-  { InstDB::RWInfo::kCategoryGeneric   , 0 , { 45, 9 , 0 , 0 , 0 , 0  } }, // #47 [ref=2x]
-  { InstDB::RWInfo::kCategoryGeneric   , 0 , { 35, 7 , 0 , 0 , 0 , 0  } }, // #48 [ref=2x]
-  { InstDB::RWInfo::kCategoryGeneric   , 0 , { 49, 13, 0 , 0 , 0 , 0  } }, // #49 [ref=2x]
-  { InstDB::RWInfo::kCategoryGeneric   , 0 , { 49, 40, 40, 0 , 0 , 0  } }, // #50 [ref=1x]
-  { InstDB::RWInfo::kCategoryGeneric   , 0 , { 35, 9 , 9 , 0 , 0 , 0  } }, // #51 [ref=1x]
-  { InstDB::RWInfo::kCategoryGeneric   , 0 , { 45, 13, 13, 0 , 0 , 0  } }, // #52 [ref=1x]
-  { InstDB::RWInfo::kCategoryGeneric   , 0 , { 58, 0 , 0 , 0 , 0 , 0  } }, // #53 [ref=1x]
+  { InstDB::RWInfo::kCategoryGeneric   , 0 , { 21, 54, 55, 0 , 0 , 0  } }, // #41 [ref=1x]
+  { InstDB::RWInfo::kCategoryGeneric   , 0 , { 56, 39, 39, 0 , 0 , 0  } }, // #42 [ref=6x]
+  { InstDB::RWInfo::kCategoryGeneric   , 0 , { 44, 9 , 9 , 0 , 0 , 0  } }, // #43 [ref=6x]
+  { InstDB::RWInfo::kCategoryGeneric   , 0 , { 34, 7 , 7 , 0 , 0 , 0  } }, // #44 [ref=6x]
+  { InstDB::RWInfo::kCategoryGeneric   , 0 , { 48, 13, 13, 0 , 0 , 0  } }, // #45 [ref=6x]
+  { InstDB::RWInfo::kCategoryGeneric   , 0 , { 56, 39, 0 , 0 , 0 , 0  } }, // #46 [ref=2x]
+  { InstDB::RWInfo::kCategoryGeneric   , 0 , { 44, 9 , 0 , 0 , 0 , 0  } }, // #47 [ref=2x]
+  { InstDB::RWInfo::kCategoryGeneric   , 0 , { 34, 7 , 0 , 0 , 0 , 0  } }, // #48 [ref=2x]
+  { InstDB::RWInfo::kCategoryGeneric   , 0 , { 48, 13, 0 , 0 , 0 , 0  } }, // #49 [ref=2x]
+  { InstDB::RWInfo::kCategoryGeneric   , 0 , { 48, 39, 39, 0 , 0 , 0  } }, // #50 [ref=1x]
+  { InstDB::RWInfo::kCategoryGeneric   , 0 , { 34, 9 , 9 , 0 , 0 , 0  } }, // #51 [ref=1x]
+  { InstDB::RWInfo::kCategoryGeneric   , 0 , { 44, 13, 13, 0 , 0 , 0  } }, // #52 [ref=1x]
+  { InstDB::RWInfo::kCategoryGeneric   , 0 , { 57, 0 , 0 , 0 , 0 , 0  } }, // #53 [ref=1x]
   { InstDB::RWInfo::kCategoryGeneric   , 28, { 9 , 0 , 0 , 0 , 0 , 0  } }, // #54 [ref=2x]
-  { InstDB::RWInfo::kCategoryGeneric   , 13, { 44, 0 , 0 , 0 , 0 , 0  } }, // #55 [ref=1x]
+  { InstDB::RWInfo::kCategoryGeneric   , 13, { 43, 0 , 0 , 0 , 0 , 0  } }, // #55 [ref=1x]
   { InstDB::RWInfo::kCategoryGeneric   , 7 , { 13, 0 , 0 , 0 , 0 , 0  } }, // #56 [ref=5x]
   { InstDB::RWInfo::kCategoryGeneric   , 0 , { 3 , 0 , 0 , 0 , 0 , 0  } }, // #57 [ref=3x]
   { InstDB::RWInfo::kCategoryGeneric   , 5 , { 3 , 9 , 0 , 0 , 0 , 0  } }, // #58 [ref=2x]
-  { InstDB::RWInfo::kCategoryGeneric   , 15, { 5 , 5 , 60, 0 , 0 , 0  } }, // #59 [ref=2x]
-  { InstDB::RWInfo::kCategoryGeneric   , 12, { 7 , 7 , 61, 0 , 0 , 0  } }, // #60 [ref=1x]
-  { InstDB::RWInfo::kCategoryGeneric   , 8 , { 62, 29, 55, 0 , 0 , 0  } }, // #61 [ref=2x]
+  { InstDB::RWInfo::kCategoryGeneric   , 15, { 5 , 5 , 59, 0 , 0 , 0  } }, // #59 [ref=2x]
+  { InstDB::RWInfo::kCategoryGeneric   , 12, { 7 , 7 , 60, 0 , 0 , 0  } }, // #60 [ref=1x]
+  { InstDB::RWInfo::kCategoryGeneric   , 8 , { 61, 28, 54, 0 , 0 , 0  } }, // #61 [ref=2x]
   { InstDB::RWInfo::kCategoryGeneric   , 32, { 0 , 0 , 0 , 0 , 0 , 0  } }, // #62 [ref=2x]
-  { InstDB::RWInfo::kCategoryGeneric   , 6 , { 65, 42, 3 , 0 , 0 , 0  } }, // #63 [ref=1x]
-  { InstDB::RWInfo::kCategoryGeneric   , 6 , { 11, 11, 3 , 66, 0 , 0  } }, // #64 [ref=1x]
-  { InstDB::RWInfo::kCategoryGeneric   , 0 , { 17, 29, 30, 0 , 0 , 0  } }, // #65 [ref=1x]
+  { InstDB::RWInfo::kCategoryGeneric   , 6 , { 64, 41, 3 , 0 , 0 , 0  } }, // #63 [ref=1x]
+  { InstDB::RWInfo::kCategoryGeneric   , 6 , { 11, 11, 3 , 65, 0 , 0  } }, // #64 [ref=1x]
+  { InstDB::RWInfo::kCategoryGeneric   , 0 , { 16, 28, 29, 0 , 0 , 0  } }, // #65 [ref=1x]
   { InstDB::RWInfo::kCategoryGeneric   , 10, { 3 , 0 , 0 , 0 , 0 , 0  } }, // #66 [ref=3x]
   { InstDB::RWInfo::kCategoryGeneric   , 2 , { 2 , 3 , 0 , 0 , 0 , 0  } }, // #67 [ref=1x]
-  { InstDB::RWInfo::kCategoryGeneric   , 3 , { 5 , 5 , 0 , 67, 17, 55 } }, // #68 [ref=2x]
-  { InstDB::RWInfo::kCategoryGeneric   , 3 , { 5 , 5 , 0 , 68, 17, 55 } }, // #69 [ref=2x]
-  { InstDB::RWInfo::kCategoryGeneric   , 3 , { 5 , 5 , 0 , 67, 0 , 0  } }, // #70 [ref=2x]
-  { InstDB::RWInfo::kCategoryGeneric   , 3 , { 5 , 5 , 0 , 68, 0 , 0  } }, // #71 [ref=2x]
-  { InstDB::RWInfo::kCategoryGeneric   , 34, { 57, 5 , 0 , 0 , 0 , 0  } }, // #72 [ref=2x]
-  { InstDB::RWInfo::kCategoryGeneric   , 35, { 35, 5 , 0 , 0 , 0 , 0  } }, // #73 [ref=2x]
-  { InstDB::RWInfo::kCategoryGeneric   , 37, { 49, 3 , 0 , 0 , 0 , 0  } }, // #74 [ref=1x]
-  { InstDB::RWInfo::kCategoryGeneric   , 17, { 4 , 40, 0 , 0 , 0 , 0  } }, // #75 [ref=1x]
+  { InstDB::RWInfo::kCategoryGeneric   , 3 , { 5 , 5 , 0 , 66, 16, 54 } }, // #68 [ref=2x]
+  { InstDB::RWInfo::kCategoryGeneric   , 3 , { 5 , 5 , 0 , 67, 16, 54 } }, // #69 [ref=2x]
+  { InstDB::RWInfo::kCategoryGeneric   , 3 , { 5 , 5 , 0 , 66, 0 , 0  } }, // #70 [ref=2x]
+  { InstDB::RWInfo::kCategoryGeneric   , 3 , { 5 , 5 , 0 , 67, 0 , 0  } }, // #71 [ref=2x]
+  { InstDB::RWInfo::kCategoryGeneric   , 34, { 56, 5 , 0 , 0 , 0 , 0  } }, // #72 [ref=2x]
+  { InstDB::RWInfo::kCategoryGeneric   , 35, { 34, 5 , 0 , 0 , 0 , 0  } }, // #73 [ref=2x]
+  { InstDB::RWInfo::kCategoryGeneric   , 37, { 48, 3 , 0 , 0 , 0 , 0  } }, // #74 [ref=1x]
+  { InstDB::RWInfo::kCategoryGeneric   , 17, { 4 , 39, 0 , 0 , 0 , 0  } }, // #75 [ref=1x]
   { InstDB::RWInfo::kCategoryGeneric   , 4 , { 4 , 7 , 0 , 0 , 0 , 0  } }, // #76 [ref=1x]
   { InstDB::RWInfo::kCategoryGeneric   , 27, { 2 , 13, 0 , 0 , 0 , 0  } }, // #77 [ref=1x]
   { InstDB::RWInfo::kCategoryGeneric   , 10, { 11, 0 , 0 , 0 , 0 , 0  } }, // #78 [ref=1x]
-  { InstDB::RWInfo::kCategoryGeneric   , 4 , { 35, 7 , 0 , 0 , 0 , 0  } }, // #79 [ref=2x]
+  { InstDB::RWInfo::kCategoryGeneric   , 4 , { 34, 7 , 0 , 0 , 0 , 0  } }, // #79 [ref=2x]
   { InstDB::RWInfo::kCategoryGeneric   , 0 , { 11, 0 , 0 , 0 , 0 , 0  } }, // #80 [ref=6x]
-  { InstDB::RWInfo::kCategoryGeneric   , 0 , { 16, 51, 29, 0 , 0 , 0  } }, // #81 [ref=5x]
-  { InstDB::RWInfo::kCategoryGeneric   , 0 , { 45, 0 , 0 , 0 , 0 , 0  } }, // #82 [ref=1x]
-  { InstDB::RWInfo::kCategoryGeneric   , 0 , { 35, 0 , 0 , 0 , 0 , 0  } }, // #83 [ref=1x]
-  { InstDB::RWInfo::kCategoryGeneric   , 0 , { 16, 51, 67, 0 , 0 , 0  } }, // #84 [ref=1x]
+  { InstDB::RWInfo::kCategoryGeneric   , 0 , { 15, 50, 28, 0 , 0 , 0  } }, // #81 [ref=5x]
+  { InstDB::RWInfo::kCategoryGeneric   , 0 , { 44, 0 , 0 , 0 , 0 , 0  } }, // #82 [ref=1x]
+  { InstDB::RWInfo::kCategoryGeneric   , 0 , { 34, 0 , 0 , 0 , 0 , 0  } }, // #83 [ref=1x]
+  { InstDB::RWInfo::kCategoryGeneric   , 0 , { 15, 50, 66, 0 , 0 , 0  } }, // #84 [ref=1x]
   { InstDB::RWInfo::kCategoryGeneric   , 2 , { 11, 3 , 0 , 0 , 0 , 0  } }, // #85 [ref=19x]
-  { InstDB::RWInfo::kCategoryGeneric   , 4 , { 36, 7 , 0 , 0 , 0 , 0  } }, // #86 [ref=1x]
-  { InstDB::RWInfo::kCategoryGeneric   , 5 , { 37, 9 , 0 , 0 , 0 , 0  } }, // #87 [ref=1x]
-  { InstDB::RWInfo::kCategoryGeneric   , 0 , { 71, 0 , 0 , 0 , 0 , 0  } }, // #88 [ref=1x]
+  { InstDB::RWInfo::kCategoryGeneric   , 4 , { 35, 7 , 0 , 0 , 0 , 0  } }, // #86 [ref=1x]
+  { InstDB::RWInfo::kCategoryGeneric   , 5 , { 36, 9 , 0 , 0 , 0 , 0  } }, // #87 [ref=1x]
+  { InstDB::RWInfo::kCategoryGeneric   , 0 , { 70, 0 , 0 , 0 , 0 , 0  } }, // #88 [ref=1x]
   { InstDB::RWInfo::kCategoryGeneric   , 0 , { 7 , 0 , 0 , 0 , 0 , 0  } }, // #89 [ref=1x]
-  { InstDB::RWInfo::kCategoryGeneric   , 34, { 72, 0 , 0 , 0 , 0 , 0  } }, // #90 [ref=16x]
-  { InstDB::RWInfo::kCategoryGeneric   , 11, { 2 , 3 , 70, 0 , 0 , 0  } }, // #91 [ref=2x]
+  { InstDB::RWInfo::kCategoryGeneric   , 34, { 71, 0 , 0 , 0 , 0 , 0  } }, // #90 [ref=16x]
+  { InstDB::RWInfo::kCategoryGeneric   , 11, { 2 , 3 , 69, 0 , 0 , 0  } }, // #91 [ref=2x]
   { InstDB::RWInfo::kCategoryGeneric   , 39, { 11, 0 , 0 , 0 , 0 , 0  } }, // #92 [ref=3x]
-  { InstDB::RWInfo::kCategoryGeneric   , 28, { 45, 0 , 0 , 0 , 0 , 0  } }, // #93 [ref=2x]
-  { InstDB::RWInfo::kCategoryGeneric   , 13, { 43, 0 , 0 , 0 , 0 , 0  } }, // #94 [ref=1x]
-  { InstDB::RWInfo::kCategoryGeneric   , 0 , { 73, 44, 44, 0 , 0 , 0  } }, // #95 [ref=8x]
-  { InstDB::RWInfo::kCategoryGeneric   , 0 , { 43, 0 , 0 , 0 , 0 , 0  } }, // #96 [ref=1x]
-  { InstDB::RWInfo::kCategoryGeneric   , 0 , { 9 , 55, 17, 0 , 0 , 0  } }, // #97 [ref=2x]
+  { InstDB::RWInfo::kCategoryGeneric   , 28, { 44, 0 , 0 , 0 , 0 , 0  } }, // #93 [ref=2x]
+  { InstDB::RWInfo::kCategoryGeneric   , 13, { 42, 0 , 0 , 0 , 0 , 0  } }, // #94 [ref=1x]
+  { InstDB::RWInfo::kCategoryGeneric   , 0 , { 72, 43, 43, 0 , 0 , 0  } }, // #95 [ref=8x]
+  { InstDB::RWInfo::kCategoryGeneric   , 0 , { 42, 0 , 0 , 0 , 0 , 0  } }, // #96 [ref=1x]
+  { InstDB::RWInfo::kCategoryGeneric   , 0 , { 9 , 54, 16, 0 , 0 , 0  } }, // #97 [ref=2x]
   { InstDB::RWInfo::kCategoryGeneric   , 40, { 10, 5 , 7 , 0 , 0 , 0  } }, // #98 [ref=9x]
   { InstDB::RWInfo::kCategoryGeneric   , 41, { 10, 5 , 13, 0 , 0 , 0  } }, // #99 [ref=9x]
   { InstDB::RWInfo::kCategoryGeneric   , 42, { 10, 5 , 9 , 0 , 0 , 0  } }, // #100 [ref=9x]
   { InstDB::RWInfo::kCategoryGeneric   , 6 , { 11, 3 , 3 , 3 , 0 , 0  } }, // #101 [ref=3x]
-  { InstDB::RWInfo::kCategoryGeneric   , 6 , { 35, 3 , 3 , 0 , 0 , 0  } }, // #102 [ref=18x]
+  { InstDB::RWInfo::kCategoryGeneric   , 6 , { 34, 3 , 3 , 0 , 0 , 0  } }, // #102 [ref=18x]
   { InstDB::RWInfo::kCategoryGeneric   , 40, { 11, 5 , 7 , 0 , 0 , 0  } }, // #103 [ref=1x]
-  { InstDB::RWInfo::kCategoryGeneric   , 41, { 35, 13, 13, 0 , 0 , 0  } }, // #104 [ref=1x]
+  { InstDB::RWInfo::kCategoryGeneric   , 41, { 34, 13, 13, 0 , 0 , 0  } }, // #104 [ref=1x]
   { InstDB::RWInfo::kCategoryGeneric   , 42, { 11, 5 , 9 , 0 , 0 , 0  } }, // #105 [ref=1x]
   { InstDB::RWInfo::kCategoryVmov1_2   , 48, { 0 , 0 , 0 , 0 , 0 , 0  } }, // #106 [ref=1x]
-  { InstDB::RWInfo::kCategoryGeneric   , 40, { 10, 77, 7 , 0 , 0 , 0  } }, // #107 [ref=1x]
+  { InstDB::RWInfo::kCategoryGeneric   , 40, { 10, 76, 7 , 0 , 0 , 0  } }, // #107 [ref=1x]
   { InstDB::RWInfo::kCategoryGeneric   , 41, { 10, 5 , 5 , 0 , 0 , 0  } }, // #108 [ref=1x]
-  { InstDB::RWInfo::kCategoryGeneric   , 49, { 10, 63, 3 , 0 , 0 , 0  } }, // #109 [ref=2x]
+  { InstDB::RWInfo::kCategoryGeneric   , 49, { 10, 62, 3 , 0 , 0 , 0  } }, // #109 [ref=2x]
   { InstDB::RWInfo::kCategoryGeneric   , 49, { 10, 3 , 3 , 0 , 0 , 0  } }, // #110 [ref=2x]
-  { InstDB::RWInfo::kCategoryGeneric   , 49, { 10, 77, 3 , 0 , 0 , 0  } }, // #111 [ref=2x]
-  { InstDB::RWInfo::kCategoryGeneric   , 42, { 10, 63, 9 , 0 , 0 , 0  } }, // #112 [ref=1x]
+  { InstDB::RWInfo::kCategoryGeneric   , 49, { 10, 76, 3 , 0 , 0 , 0  } }, // #111 [ref=2x]
+  { InstDB::RWInfo::kCategoryGeneric   , 42, { 10, 62, 9 , 0 , 0 , 0  } }, // #112 [ref=1x]
   { InstDB::RWInfo::kCategoryGeneric   , 42, { 10, 5 , 5 , 0 , 0 , 0  } }, // #113 [ref=1x]
   { InstDB::RWInfo::kCategoryGeneric   , 50, { 10, 5 , 5 , 0 , 0 , 0  } }, // #114 [ref=9x]
-  { InstDB::RWInfo::kCategoryGeneric   , 51, { 10, 76, 0 , 0 , 0 , 0  } }, // #115 [ref=2x]
+  { InstDB::RWInfo::kCategoryGeneric   , 51, { 10, 75, 0 , 0 , 0 , 0  } }, // #115 [ref=2x]
   { InstDB::RWInfo::kCategoryGeneric   , 51, { 10, 3 , 0 , 0 , 0 , 0  } }, // #116 [ref=4x]
-  { InstDB::RWInfo::kCategoryGeneric   , 52, { 75, 44, 0 , 0 , 0 , 0  } }, // #117 [ref=4x]
-  { InstDB::RWInfo::kCategoryGeneric   , 6 , { 78, 3 , 3 , 0 , 0 , 0  } }, // #118 [ref=4x]
-  { InstDB::RWInfo::kCategoryGeneric   , 42, { 79, 5 , 5 , 0 , 0 , 0  } }, // #119 [ref=3x]
+  { InstDB::RWInfo::kCategoryGeneric   , 52, { 74, 43, 0 , 0 , 0 , 0  } }, // #117 [ref=4x]
+  { InstDB::RWInfo::kCategoryGeneric   , 6 , { 77, 3 , 3 , 0 , 0 , 0  } }, // #118 [ref=4x]
+  { InstDB::RWInfo::kCategoryGeneric   , 42, { 78, 5 , 5 , 0 , 0 , 0  } }, // #119 [ref=3x]
   { InstDB::RWInfo::kCategoryGeneric   , 6 , { 2 , 3 , 3 , 0 , 0 , 0  } }, // #120 [ref=90x]
-  { InstDB::RWInfo::kCategoryGeneric   , 40, { 4 , 63, 7 , 0 , 0 , 0  } }, // #121 [ref=1x]
-  { InstDB::RWInfo::kCategoryGeneric   , 42, { 4 , 77, 9 , 0 , 0 , 0  } }, // #122 [ref=1x]
+  { InstDB::RWInfo::kCategoryGeneric   , 40, { 4 , 62, 7 , 0 , 0 , 0  } }, // #121 [ref=1x]
+  { InstDB::RWInfo::kCategoryGeneric   , 42, { 4 , 76, 9 , 0 , 0 , 0  } }, // #122 [ref=1x]
   { InstDB::RWInfo::kCategoryGeneric   , 40, { 6 , 7 , 7 , 0 , 0 , 0  } }, // #123 [ref=11x]
-  { InstDB::RWInfo::kCategoryGeneric   , 41, { 80, 5 , 5 , 0 , 0 , 0  } }, // #124 [ref=6x]
+  { InstDB::RWInfo::kCategoryGeneric   , 41, { 79, 5 , 5 , 0 , 0 , 0  } }, // #124 [ref=6x]
   { InstDB::RWInfo::kCategoryGeneric   , 42, { 8 , 9 , 9 , 0 , 0 , 0  } }, // #125 [ref=11x]
   { InstDB::RWInfo::kCategoryGeneric   , 53, { 11, 3 , 3 , 3 , 0 , 0  } }, // #126 [ref=15x]
-  { InstDB::RWInfo::kCategoryGeneric   , 54, { 35, 7 , 7 , 7 , 0 , 0  } }, // #127 [ref=4x]
-  { InstDB::RWInfo::kCategoryGeneric   , 55, { 45, 9 , 9 , 9 , 0 , 0  } }, // #128 [ref=4x]
-  { InstDB::RWInfo::kCategoryGeneric   , 41, { 80, 5 , 13, 0 , 0 , 0  } }, // #129 [ref=6x]
-  { InstDB::RWInfo::kCategoryGeneric   , 42, { 81, 5 , 5 , 0 , 0 , 0  } }, // #130 [ref=1x]
-  { InstDB::RWInfo::kCategoryGeneric   , 40, { 26, 7 , 7 , 0 , 0 , 0  } }, // #131 [ref=1x]
-  { InstDB::RWInfo::kCategoryGeneric   , 42, { 74, 9 , 9 , 0 , 0 , 0  } }, // #132 [ref=1x]
-  { InstDB::RWInfo::kCategoryGeneric   , 16, { 35, 3 , 0 , 0 , 0 , 0  } }, // #133 [ref=3x]
-  { InstDB::RWInfo::kCategoryGeneric   , 27, { 35, 13, 0 , 0 , 0 , 0  } }, // #134 [ref=1x]
-  { InstDB::RWInfo::kCategoryGeneric   , 5 , { 35, 9 , 0 , 0 , 0 , 0  } }, // #135 [ref=1x]
+  { InstDB::RWInfo::kCategoryGeneric   , 54, { 34, 7 , 7 , 7 , 0 , 0  } }, // #127 [ref=4x]
+  { InstDB::RWInfo::kCategoryGeneric   , 55, { 44, 9 , 9 , 9 , 0 , 0  } }, // #128 [ref=4x]
+  { InstDB::RWInfo::kCategoryGeneric   , 41, { 79, 5 , 13, 0 , 0 , 0  } }, // #129 [ref=6x]
+  { InstDB::RWInfo::kCategoryGeneric   , 42, { 80, 5 , 5 , 0 , 0 , 0  } }, // #130 [ref=1x]
+  { InstDB::RWInfo::kCategoryGeneric   , 40, { 25, 7 , 7 , 0 , 0 , 0  } }, // #131 [ref=1x]
+  { InstDB::RWInfo::kCategoryGeneric   , 42, { 73, 9 , 9 , 0 , 0 , 0  } }, // #132 [ref=1x]
+  { InstDB::RWInfo::kCategoryGeneric   , 16, { 34, 3 , 0 , 0 , 0 , 0  } }, // #133 [ref=3x]
+  { InstDB::RWInfo::kCategoryGeneric   , 27, { 34, 13, 0 , 0 , 0 , 0  } }, // #134 [ref=1x]
+  { InstDB::RWInfo::kCategoryGeneric   , 5 , { 34, 9 , 0 , 0 , 0 , 0  } }, // #135 [ref=1x]
   { InstDB::RWInfo::kCategoryGeneric   , 8 , { 2 , 3 , 2 , 0 , 0 , 0  } }, // #136 [ref=2x]
   { InstDB::RWInfo::kCategoryGeneric   , 0 , { 2 , 3 , 2 , 0 , 0 , 0  } }, // #137 [ref=4x]
   { InstDB::RWInfo::kCategoryGeneric   , 14, { 4 , 3 , 4 , 0 , 0 , 0  } }, // #138 [ref=2x]
-  { InstDB::RWInfo::kCategoryGeneric   , 40, { 10, 63, 7 , 0 , 0 , 0  } }, // #139 [ref=9x]
-  { InstDB::RWInfo::kCategoryGeneric   , 41, { 10, 82, 13, 0 , 0 , 0  } }, // #140 [ref=7x]
-  { InstDB::RWInfo::kCategoryGeneric   , 42, { 10, 77, 9 , 0 , 0 , 0  } }, // #141 [ref=11x]
-  { InstDB::RWInfo::kCategoryGeneric   , 50, { 75, 76, 5 , 0 , 0 , 0  } }, // #142 [ref=2x]
+  { InstDB::RWInfo::kCategoryGeneric   , 40, { 10, 62, 7 , 0 , 0 , 0  } }, // #139 [ref=9x]
+  { InstDB::RWInfo::kCategoryGeneric   , 41, { 10, 81, 13, 0 , 0 , 0  } }, // #140 [ref=7x]
+  { InstDB::RWInfo::kCategoryGeneric   , 42, { 10, 76, 9 , 0 , 0 , 0  } }, // #141 [ref=11x]
+  { InstDB::RWInfo::kCategoryGeneric   , 50, { 74, 75, 5 , 0 , 0 , 0  } }, // #142 [ref=2x]
   { InstDB::RWInfo::kCategoryGeneric   , 50, { 11, 3 , 5 , 0 , 0 , 0  } }, // #143 [ref=4x]
-  { InstDB::RWInfo::kCategoryGeneric   , 56, { 43, 44, 76, 0 , 0 , 0  } }, // #144 [ref=4x]
+  { InstDB::RWInfo::kCategoryGeneric   , 56, { 42, 43, 75, 0 , 0 , 0  } }, // #144 [ref=4x]
   { InstDB::RWInfo::kCategoryVmaskmov  , 0 , { 0 , 0 , 0 , 0 , 0 , 0  } }, // #145 [ref=4x]
-  { InstDB::RWInfo::kCategoryGeneric   , 0 , { 22, 0 , 0 , 0 , 0 , 0  } }, // #146 [ref=2x]
-  { InstDB::RWInfo::kCategoryGeneric   , 0 , { 10, 63, 63, 0 , 0 , 0  } }, // #147 [ref=1x]
+  { InstDB::RWInfo::kCategoryGeneric   , 0 , { 21, 0 , 0 , 0 , 0 , 0  } }, // #146 [ref=2x]
+  { InstDB::RWInfo::kCategoryGeneric   , 0 , { 10, 62, 62, 0 , 0 , 0  } }, // #147 [ref=1x]
   { InstDB::RWInfo::kCategoryGeneric   , 12, { 10, 7 , 7 , 0 , 0 , 0  } }, // #148 [ref=2x]
   { InstDB::RWInfo::kCategoryGeneric   , 0 , { 10, 7 , 7 , 0 , 0 , 0  } }, // #149 [ref=1x]
-  { InstDB::RWInfo::kCategoryGeneric   , 12, { 10, 63, 7 , 0 , 0 , 0  } }, // #150 [ref=2x]
-  { InstDB::RWInfo::kCategoryGeneric   , 0 , { 10, 63, 7 , 0 , 0 , 0  } }, // #151 [ref=1x]
-  { InstDB::RWInfo::kCategoryGeneric   , 0 , { 10, 82, 13, 0 , 0 , 0  } }, // #152 [ref=1x]
-  { InstDB::RWInfo::kCategoryGeneric   , 0 , { 10, 77, 9 , 0 , 0 , 0  } }, // #153 [ref=1x]
-  { InstDB::RWInfo::kCategoryGeneric   , 12, { 35, 0 , 0 , 0 , 0 , 0  } }, // #154 [ref=1x]
-  { InstDB::RWInfo::kCategoryGeneric   , 0 , { 83, 0 , 0 , 0 , 0 , 0  } }, // #155 [ref=1x]
-  { InstDB::RWInfo::kCategoryGeneric   , 59, { 84, 85, 3 , 3 , 0 , 0  } }, // #156 [ref=2x]
-  { InstDB::RWInfo::kCategoryGeneric   , 56, { 75, 76, 76, 0 , 0 , 0  } }, // #157 [ref=2x]
+  { InstDB::RWInfo::kCategoryGeneric   , 12, { 10, 62, 7 , 0 , 0 , 0  } }, // #150 [ref=2x]
+  { InstDB::RWInfo::kCategoryGeneric   , 0 , { 10, 62, 7 , 0 , 0 , 0  } }, // #151 [ref=1x]
+  { InstDB::RWInfo::kCategoryGeneric   , 0 , { 10, 81, 13, 0 , 0 , 0  } }, // #152 [ref=1x]
+  { InstDB::RWInfo::kCategoryGeneric   , 0 , { 10, 76, 9 , 0 , 0 , 0  } }, // #153 [ref=1x]
+  { InstDB::RWInfo::kCategoryGeneric   , 12, { 34, 0 , 0 , 0 , 0 , 0  } }, // #154 [ref=1x]
+  { InstDB::RWInfo::kCategoryGeneric   , 0 , { 82, 0 , 0 , 0 , 0 , 0  } }, // #155 [ref=1x]
+  { InstDB::RWInfo::kCategoryGeneric   , 59, { 83, 84, 3 , 3 , 0 , 0  } }, // #156 [ref=2x]
+  { InstDB::RWInfo::kCategoryGeneric   , 56, { 74, 75, 75, 0 , 0 , 0  } }, // #157 [ref=2x]
   { InstDB::RWInfo::kCategoryGeneric   , 22, { 11, 3 , 3 , 0 , 0 , 0  } }, // #158 [ref=4x]
-  { InstDB::RWInfo::kCategoryGeneric   , 7 , { 49, 5 , 0 , 0 , 0 , 0  } }, // #159 [ref=1x]
-  { InstDB::RWInfo::kCategoryGeneric   , 60, { 10, 5 , 40, 0 , 0 , 0  } }, // #160 [ref=1x]
+  { InstDB::RWInfo::kCategoryGeneric   , 7 , { 48, 5 , 0 , 0 , 0 , 0  } }, // #159 [ref=1x]
+  { InstDB::RWInfo::kCategoryGeneric   , 60, { 10, 5 , 39, 0 , 0 , 0  } }, // #160 [ref=1x]
   { InstDB::RWInfo::kCategoryGeneric   , 50, { 10, 5 , 5 , 5 , 0 , 0  } }, // #161 [ref=12x]
   { InstDB::RWInfo::kCategoryGeneric   , 64, { 10, 5 , 5 , 5 , 0 , 0  } }, // #162 [ref=1x]
   { InstDB::RWInfo::kCategoryGeneric   , 65, { 10, 5 , 5 , 0 , 0 , 0  } }, // #163 [ref=12x]
@@ -5967,11 +5967,11 @@ const InstDB::RWInfo InstDB::rw_info_b_table[] = {
   { InstDB::RWInfo::kCategoryGeneric   , 68, { 11, 3 , 5 , 0 , 0 , 0  } }, // #166 [ref=3x]
   { InstDB::RWInfo::kCategoryGeneric   , 22, { 11, 3 , 5 , 0 , 0 , 0  } }, // #167 [ref=1x]
   { InstDB::RWInfo::kCategoryGenericEx , 6 , { 2 , 3 , 3 , 0 , 0 , 0  } }, // #168 [ref=2x]
-  { InstDB::RWInfo::kCategoryGeneric   , 0 , { 86, 76, 5 , 0 , 0 , 0  } }, // #169 [ref=1x]
+  { InstDB::RWInfo::kCategoryGeneric   , 0 , { 85, 75, 5 , 0 , 0 , 0  } }, // #169 [ref=1x]
   { InstDB::RWInfo::kCategoryGeneric   , 50, { 4 , 5 , 5 , 0 , 0 , 0  } }, // #170 [ref=3x]
-  { InstDB::RWInfo::kCategoryGeneric   , 0 , { 55, 17, 29, 0 , 0 , 0  } }, // #171 [ref=2x]
-  { InstDB::RWInfo::kCategoryGeneric   , 8 , { 3 , 55, 17, 0 , 0 , 0  } }, // #172 [ref=4x]
-  { InstDB::RWInfo::kCategoryGeneric   , 8 , { 11, 55, 17, 0 , 0 , 0  } }  // #173 [ref=8x]
+  { InstDB::RWInfo::kCategoryGeneric   , 0 , { 54, 16, 28, 0 , 0 , 0  } }, // #171 [ref=2x]
+  { InstDB::RWInfo::kCategoryGeneric   , 8 , { 3 , 54, 16, 0 , 0 , 0  } }, // #172 [ref=4x]
+  { InstDB::RWInfo::kCategoryGeneric   , 8 , { 11, 54, 16, 0 , 0 , 0  } }  // #173 [ref=8x]
 };
 
 const InstDB::RWInfoOp InstDB::rw_info_op_table[] = {
@@ -5986,82 +5986,81 @@ const InstDB::RWInfoOp InstDB::rw_info_op_table[] = {
   { 0x000000000000000Fu, 0x000000000000000Fu, 0xFF, 0, { 0 }, OpRWFlags::kRW }, // #8 [ref=18x]
   { 0x000000000000000Fu, 0x0000000000000000u, 0xFF, 0, { 0 }, OpRWFlags::kRead }, // #9 [ref=133x]
   { 0x0000000000000000u, 0x000000000000FFFFu, 0xFF, 0, { 0 }, OpRWFlags::kWrite | OpRWFlags::kZExt }, // #10 [ref=178x]
-  { 0x0000000000000000u, 0x0000000000000000u, 0xFF, 0, { 0 }, OpRWFlags::kWrite | OpRWFlags::kZExt }, // #11 [ref=445x]
+  { 0x0000000000000000u, 0x0000000000000000u, 0xFF, 0, { 0 }, OpRWFlags::kWrite | OpRWFlags::kZExt }, // #11 [ref=446x]
   { 0x0000000000000003u, 0x0000000000000003u, 0xFF, 0, { 0 }, OpRWFlags::kRW }, // #12 [ref=1x]
   { 0x0000000000000003u, 0x0000000000000000u, 0xFF, 0, { 0 }, OpRWFlags::kRead }, // #13 [ref=71x]
   { 0x000000000000FFFFu, 0x0000000000000000u, 0x00, 0, { 0 }, OpRWFlags::kRead | OpRWFlags::kRegPhysId }, // #14 [ref=4x]
-  { 0x0000000000000000u, 0x0000000000000000u, 0xFF, 0, { 0 }, OpRWFlags::kWrite | OpRWFlags::kZExt | OpRWFlags::kMemBaseWrite | OpRWFlags::kMemIndexWrite }, // #15 [ref=1x]
-  { 0x0000000000000000u, 0x000000000000000Fu, 0x02, 0, { 0 }, OpRWFlags::kWrite | OpRWFlags::kZExt | OpRWFlags::kRegPhysId }, // #16 [ref=9x]
-  { 0x000000000000000Fu, 0x0000000000000000u, 0x00, 0, { 0 }, OpRWFlags::kRead | OpRWFlags::kRegPhysId }, // #17 [ref=23x]
-  { 0x00000000000000FFu, 0x00000000000000FFu, 0x00, 0, { 0 }, OpRWFlags::kRW | OpRWFlags::kZExt | OpRWFlags::kRegPhysId }, // #18 [ref=2x]
-  { 0xFFFFFFFFFFFFFFFFu, 0x0000000000000000u, 0x00, 0, { 0 }, OpRWFlags::kRead | OpRWFlags::kMemPhysId }, // #19 [ref=1x]
-  { 0x0000000000000000u, 0x0000000000000000u, 0x06, 0, { 0 }, OpRWFlags::kRead | OpRWFlags::kMemBaseRW | OpRWFlags::kMemBasePostModify | OpRWFlags::kMemPhysId }, // #20 [ref=4x]
-  { 0x0000000000000000u, 0x0000000000000000u, 0x07, 0, { 0 }, OpRWFlags::kRead | OpRWFlags::kMemBaseRW | OpRWFlags::kMemBasePostModify | OpRWFlags::kMemPhysId }, // #21 [ref=2x]
-  { 0x0000000000000000u, 0x0000000000000000u, 0x00, 0, { 0 }, OpRWFlags::kRead | OpRWFlags::kRegPhysId }, // #22 [ref=8x]
-  { 0x00000000000000FFu, 0x00000000000000FFu, 0x02, 0, { 0 }, OpRWFlags::kRW | OpRWFlags::kZExt | OpRWFlags::kRegPhysId }, // #23 [ref=1x]
-  { 0x00000000000000FFu, 0x0000000000000000u, 0x01, 0, { 0 }, OpRWFlags::kRead | OpRWFlags::kRegPhysId }, // #24 [ref=1x]
-  { 0x00000000000000FFu, 0x0000000000000000u, 0x03, 0, { 0 }, OpRWFlags::kRead | OpRWFlags::kRegPhysId }, // #25 [ref=1x]
-  { 0x00000000000000FFu, 0x00000000000000FFu, 0xFF, 0, { 0 }, OpRWFlags::kRW | OpRWFlags::kZExt }, // #26 [ref=20x]
-  { 0x000000000000000Fu, 0x000000000000000Fu, 0x02, 0, { 0 }, OpRWFlags::kRW | OpRWFlags::kZExt | OpRWFlags::kRegPhysId }, // #27 [ref=1x]
-  { 0x000000000000000Fu, 0x000000000000000Fu, 0x00, 0, { 0 }, OpRWFlags::kRW | OpRWFlags::kZExt | OpRWFlags::kRegPhysId }, // #28 [ref=4x]
-  { 0x000000000000000Fu, 0x0000000000000000u, 0x01, 0, { 0 }, OpRWFlags::kRead | OpRWFlags::kRegPhysId }, // #29 [ref=13x]
-  { 0x000000000000000Fu, 0x0000000000000000u, 0x03, 0, { 0 }, OpRWFlags::kRead | OpRWFlags::kRegPhysId }, // #30 [ref=3x]
-  { 0x0000000000000000u, 0x000000000000000Fu, 0x03, 0, { 0 }, OpRWFlags::kWrite | OpRWFlags::kZExt | OpRWFlags::kRegPhysId }, // #31 [ref=1x]
-  { 0x000000000000000Fu, 0x000000000000000Fu, 0x01, 0, { 0 }, OpRWFlags::kRW | OpRWFlags::kZExt | OpRWFlags::kRegPhysId }, // #32 [ref=1x]
-  { 0x0000000000000000u, 0x00000000000000FFu, 0x02, 0, { 0 }, OpRWFlags::kWrite | OpRWFlags::kZExt | OpRWFlags::kRegPhysId }, // #33 [ref=1x]
-  { 0x00000000000000FFu, 0x0000000000000000u, 0x00, 0, { 0 }, OpRWFlags::kRead | OpRWFlags::kRegPhysId }, // #34 [ref=1x]
-  { 0x0000000000000000u, 0x00000000000000FFu, 0xFF, 0, { 0 }, OpRWFlags::kWrite | OpRWFlags::kZExt }, // #35 [ref=82x]
-  { 0x0000000000000000u, 0x00000000000000FFu, 0xFF, 0, { 0 }, OpRWFlags::kWrite }, // #36 [ref=6x]
-  { 0x0000000000000000u, 0x000000000000000Fu, 0xFF, 0, { 0 }, OpRWFlags::kWrite }, // #37 [ref=6x]
-  { 0x0000000000000000u, 0x0000000000000003u, 0x02, 0, { 0 }, OpRWFlags::kWrite | OpRWFlags::kRegPhysId }, // #38 [ref=1x]
-  { 0x0000000000000003u, 0x0000000000000000u, 0x00, 0, { 0 }, OpRWFlags::kRead | OpRWFlags::kRegPhysId }, // #39 [ref=1x]
-  { 0x0000000000000001u, 0x0000000000000000u, 0xFF, 0, { 0 }, OpRWFlags::kRead }, // #40 [ref=30x]
-  { 0x0000000000000000u, 0x0000000000000000u, 0x02, 0, { 0 }, OpRWFlags::kRW | OpRWFlags::kRegPhysId | OpRWFlags::kZExt }, // #41 [ref=2x]
-  { 0x0000000000000000u, 0x0000000000000000u, 0x00, 0, { 0 }, OpRWFlags::kRW | OpRWFlags::kRegPhysId | OpRWFlags::kZExt }, // #42 [ref=3x]
-  { 0x0000000000000000u, 0xFFFFFFFFFFFFFFFFu, 0xFF, 0, { 0 }, OpRWFlags::kWrite | OpRWFlags::kZExt }, // #43 [ref=15x]
-  { 0xFFFFFFFFFFFFFFFFu, 0x0000000000000000u, 0xFF, 0, { 0 }, OpRWFlags::kRead }, // #44 [ref=29x]
-  { 0x0000000000000000u, 0x000000000000000Fu, 0xFF, 0, { 0 }, OpRWFlags::kWrite | OpRWFlags::kZExt }, // #45 [ref=30x]
-  { 0x00000000000003FFu, 0x00000000000003FFu, 0xFF, 0, { 0 }, OpRWFlags::kRW | OpRWFlags::kZExt }, // #46 [ref=22x]
-  { 0x00000000000003FFu, 0x0000000000000000u, 0xFF, 0, { 0 }, OpRWFlags::kRead }, // #47 [ref=13x]
-  { 0x0000000000000000u, 0x00000000000003FFu, 0xFF, 0, { 0 }, OpRWFlags::kWrite | OpRWFlags::kZExt }, // #48 [ref=1x]
-  { 0x0000000000000000u, 0x0000000000000003u, 0xFF, 0, { 0 }, OpRWFlags::kWrite | OpRWFlags::kZExt }, // #49 [ref=17x]
-  { 0x0000000000000000u, 0x0000000000000003u, 0x00, 0, { 0 }, OpRWFlags::kWrite | OpRWFlags::kRegPhysId | OpRWFlags::kZExt }, // #50 [ref=2x]
-  { 0x0000000000000000u, 0x000000000000000Fu, 0x00, 0, { 0 }, OpRWFlags::kWrite | OpRWFlags::kZExt | OpRWFlags::kRegPhysId }, // #51 [ref=9x]
-  { 0x0000000000000000u, 0x0000000000000000u, 0x00, 0, { 0 }, OpRWFlags::kWrite | OpRWFlags::kRegPhysId | OpRWFlags::kZExt }, // #52 [ref=2x]
-  { 0x0000000000000003u, 0x0000000000000000u, 0x02, 0, { 0 }, OpRWFlags::kRead | OpRWFlags::kRegPhysId }, // #53 [ref=4x]
-  { 0x0000000000000000u, 0x0000000000000000u, 0x07, 0, { 0 }, OpRWFlags::kWrite | OpRWFlags::kZExt | OpRWFlags::kMemBaseRW | OpRWFlags::kMemBasePostModify | OpRWFlags::kMemPhysId }, // #54 [ref=3x]
-  { 0x000000000000000Fu, 0x0000000000000000u, 0x02, 0, { 0 }, OpRWFlags::kRead | OpRWFlags::kRegPhysId }, // #55 [ref=23x]
-  { 0x0000000000000000u, 0x0000000000000000u, 0x01, 0, { 0 }, OpRWFlags::kRead | OpRWFlags::kRegPhysId }, // #56 [ref=2x]
-  { 0x0000000000000000u, 0x0000000000000001u, 0xFF, 0, { 0 }, OpRWFlags::kWrite | OpRWFlags::kZExt }, // #57 [ref=14x]
-  { 0x0000000000000000u, 0x0000000000000001u, 0x00, 0, { 0 }, OpRWFlags::kWrite | OpRWFlags::kRegPhysId }, // #58 [ref=1x]
-  { 0x0000000000000000u, 0x0000000000000000u, 0x01, 0, { 0 }, OpRWFlags::kRW | OpRWFlags::kRegPhysId | OpRWFlags::kZExt }, // #59 [ref=3x]
-  { 0x000000000000FFFFu, 0x000000000000FFFFu, 0x07, 0, { 0 }, OpRWFlags::kRW | OpRWFlags::kZExt | OpRWFlags::kMemPhysId }, // #60 [ref=2x]
-  { 0x00000000000000FFu, 0x00000000000000FFu, 0x07, 0, { 0 }, OpRWFlags::kRW | OpRWFlags::kZExt | OpRWFlags::kMemPhysId }, // #61 [ref=1x]
-  { 0x0000000000000000u, 0x0000000000000000u, 0x00, 0, { 0 }, OpRWFlags::kRead | OpRWFlags::kMemPhysId }, // #62 [ref=2x]
-  { 0x000000000000FF00u, 0x0000000000000000u, 0xFF, 0, { 0 }, OpRWFlags::kRead }, // #63 [ref=21x]
-  { 0x0000000000000000u, 0x000000000000FF00u, 0xFF, 0, { 0 }, OpRWFlags::kWrite }, // #64 [ref=1x]
-  { 0x0000000000000000u, 0x0000000000000000u, 0x02, 0, { 0 }, OpRWFlags::kWrite | OpRWFlags::kRegPhysId | OpRWFlags::kZExt }, // #65 [ref=1x]
-  { 0x0000000000000000u, 0x0000000000000000u, 0x02, 0, { 0 }, OpRWFlags::kRead | OpRWFlags::kRegPhysId }, // #66 [ref=1x]
-  { 0x0000000000000000u, 0x000000000000000Fu, 0x01, 0, { 0 }, OpRWFlags::kWrite | OpRWFlags::kZExt | OpRWFlags::kRegPhysId }, // #67 [ref=5x]
-  { 0x0000000000000000u, 0x000000000000FFFFu, 0x00, 0, { 0 }, OpRWFlags::kWrite | OpRWFlags::kZExt | OpRWFlags::kRegPhysId }, // #68 [ref=4x]
-  { 0x0000000000000000u, 0x0000000000000007u, 0xFF, 0, { 0 }, OpRWFlags::kWrite | OpRWFlags::kZExt }, // #69 [ref=2x]
-  { 0x0000000000000001u, 0x0000000000000000u, 0x01, 0, { 0 }, OpRWFlags::kRead | OpRWFlags::kRegPhysId }, // #70 [ref=9x]
-  { 0x0000000000000001u, 0x0000000000000000u, 0x00, 0, { 0 }, OpRWFlags::kRead | OpRWFlags::kRegPhysId }, // #71 [ref=1x]
-  { 0x0000000000000000u, 0x0000000000000001u, 0xFF, 0, { 0 }, OpRWFlags::kWrite }, // #72 [ref=16x]
-  { 0xFFFFFFFFFFFFFFFFu, 0xFFFFFFFFFFFFFFFFu, 0xFF, 0, { 0 }, OpRWFlags::kRW | OpRWFlags::kZExt }, // #73 [ref=8x]
-  { 0x000000000000000Fu, 0x000000000000000Fu, 0xFF, 0, { 0 }, OpRWFlags::kRW | OpRWFlags::kZExt }, // #74 [ref=3x]
-  { 0x0000000000000000u, 0x00000000FFFFFFFFu, 0xFF, 0, { 0 }, OpRWFlags::kWrite | OpRWFlags::kZExt }, // #75 [ref=10x]
-  { 0x00000000FFFFFFFFu, 0x0000000000000000u, 0xFF, 0, { 0 }, OpRWFlags::kRead }, // #76 [ref=18x]
-  { 0x000000000000FFF0u, 0x0000000000000000u, 0xFF, 0, { 0 }, OpRWFlags::kRead }, // #77 [ref=16x]
-  { 0x0000000000000000u, 0x0000000000000000u, 0xFF, 0, { 0 }, OpRWFlags::kRW | OpRWFlags::kUnique | OpRWFlags::kZExt }, // #78 [ref=4x]
-  { 0x000000000000FFFFu, 0x000000000000FFFFu, 0xFF, 0, { 0 }, OpRWFlags::kRW | OpRWFlags::kUnique }, // #79 [ref=3x]
-  { 0x000000000000FFFFu, 0x000000000000FFFFu, 0xFF, 0, { 0 }, OpRWFlags::kRW }, // #80 [ref=12x]
-  { 0x000000000000FFFFu, 0x000000000000FFFFu, 0xFF, 0, { 0 }, OpRWFlags::kRW | OpRWFlags::kUnique | OpRWFlags::kZExt }, // #81 [ref=1x]
-  { 0x000000000000FFFCu, 0x0000000000000000u, 0xFF, 0, { 0 }, OpRWFlags::kRead }, // #82 [ref=8x]
-  { 0x0000000000000000u, 0x0000000000000000u, 0x00, 0, { 0 }, OpRWFlags::kRW | OpRWFlags::kZExt | OpRWFlags::kRegPhysId }, // #83 [ref=1x]
-  { 0x0000000000000000u, 0x00000000000000FFu, 0xFF, 2, { 0 }, OpRWFlags::kWrite | OpRWFlags::kZExt }, // #84 [ref=2x]
-  { 0x0000000000000000u, 0x0000000000000000u, 0xFF, 0, { 0 }, OpRWFlags::kWrite | OpRWFlags::kZExt | OpRWFlags::kConsecutive }, // #85 [ref=2x]
-  { 0x00000000FFFFFFFFu, 0x00000000FFFFFFFFu, 0xFF, 0, { 0 }, OpRWFlags::kRW | OpRWFlags::kZExt }  // #86 [ref=3x]
+  { 0x0000000000000000u, 0x000000000000000Fu, 0x02, 0, { 0 }, OpRWFlags::kWrite | OpRWFlags::kZExt | OpRWFlags::kRegPhysId }, // #15 [ref=9x]
+  { 0x000000000000000Fu, 0x0000000000000000u, 0x00, 0, { 0 }, OpRWFlags::kRead | OpRWFlags::kRegPhysId }, // #16 [ref=23x]
+  { 0x00000000000000FFu, 0x00000000000000FFu, 0x00, 0, { 0 }, OpRWFlags::kRW | OpRWFlags::kZExt | OpRWFlags::kRegPhysId }, // #17 [ref=2x]
+  { 0xFFFFFFFFFFFFFFFFu, 0x0000000000000000u, 0x00, 0, { 0 }, OpRWFlags::kRead | OpRWFlags::kMemPhysId }, // #18 [ref=1x]
+  { 0x0000000000000000u, 0x0000000000000000u, 0x06, 0, { 0 }, OpRWFlags::kRead | OpRWFlags::kMemBaseRW | OpRWFlags::kMemBasePostModify | OpRWFlags::kMemPhysId }, // #19 [ref=4x]
+  { 0x0000000000000000u, 0x0000000000000000u, 0x07, 0, { 0 }, OpRWFlags::kRead | OpRWFlags::kMemBaseRW | OpRWFlags::kMemBasePostModify | OpRWFlags::kMemPhysId }, // #20 [ref=2x]
+  { 0x0000000000000000u, 0x0000000000000000u, 0x00, 0, { 0 }, OpRWFlags::kRead | OpRWFlags::kRegPhysId }, // #21 [ref=8x]
+  { 0x00000000000000FFu, 0x00000000000000FFu, 0x02, 0, { 0 }, OpRWFlags::kRW | OpRWFlags::kZExt | OpRWFlags::kRegPhysId }, // #22 [ref=1x]
+  { 0x00000000000000FFu, 0x0000000000000000u, 0x01, 0, { 0 }, OpRWFlags::kRead | OpRWFlags::kRegPhysId }, // #23 [ref=1x]
+  { 0x00000000000000FFu, 0x0000000000000000u, 0x03, 0, { 0 }, OpRWFlags::kRead | OpRWFlags::kRegPhysId }, // #24 [ref=1x]
+  { 0x00000000000000FFu, 0x00000000000000FFu, 0xFF, 0, { 0 }, OpRWFlags::kRW | OpRWFlags::kZExt }, // #25 [ref=20x]
+  { 0x000000000000000Fu, 0x000000000000000Fu, 0x02, 0, { 0 }, OpRWFlags::kRW | OpRWFlags::kZExt | OpRWFlags::kRegPhysId }, // #26 [ref=1x]
+  { 0x000000000000000Fu, 0x000000000000000Fu, 0x00, 0, { 0 }, OpRWFlags::kRW | OpRWFlags::kZExt | OpRWFlags::kRegPhysId }, // #27 [ref=4x]
+  { 0x000000000000000Fu, 0x0000000000000000u, 0x01, 0, { 0 }, OpRWFlags::kRead | OpRWFlags::kRegPhysId }, // #28 [ref=13x]
+  { 0x000000000000000Fu, 0x0000000000000000u, 0x03, 0, { 0 }, OpRWFlags::kRead | OpRWFlags::kRegPhysId }, // #29 [ref=3x]
+  { 0x0000000000000000u, 0x000000000000000Fu, 0x03, 0, { 0 }, OpRWFlags::kWrite | OpRWFlags::kZExt | OpRWFlags::kRegPhysId }, // #30 [ref=1x]
+  { 0x000000000000000Fu, 0x000000000000000Fu, 0x01, 0, { 0 }, OpRWFlags::kRW | OpRWFlags::kZExt | OpRWFlags::kRegPhysId }, // #31 [ref=1x]
+  { 0x0000000000000000u, 0x00000000000000FFu, 0x02, 0, { 0 }, OpRWFlags::kWrite | OpRWFlags::kZExt | OpRWFlags::kRegPhysId }, // #32 [ref=1x]
+  { 0x00000000000000FFu, 0x0000000000000000u, 0x00, 0, { 0 }, OpRWFlags::kRead | OpRWFlags::kRegPhysId }, // #33 [ref=1x]
+  { 0x0000000000000000u, 0x00000000000000FFu, 0xFF, 0, { 0 }, OpRWFlags::kWrite | OpRWFlags::kZExt }, // #34 [ref=82x]
+  { 0x0000000000000000u, 0x00000000000000FFu, 0xFF, 0, { 0 }, OpRWFlags::kWrite }, // #35 [ref=6x]
+  { 0x0000000000000000u, 0x000000000000000Fu, 0xFF, 0, { 0 }, OpRWFlags::kWrite }, // #36 [ref=6x]
+  { 0x0000000000000000u, 0x0000000000000003u, 0x02, 0, { 0 }, OpRWFlags::kWrite | OpRWFlags::kRegPhysId }, // #37 [ref=1x]
+  { 0x0000000000000003u, 0x0000000000000000u, 0x00, 0, { 0 }, OpRWFlags::kRead | OpRWFlags::kRegPhysId }, // #38 [ref=1x]
+  { 0x0000000000000001u, 0x0000000000000000u, 0xFF, 0, { 0 }, OpRWFlags::kRead }, // #39 [ref=30x]
+  { 0x0000000000000000u, 0x0000000000000000u, 0x02, 0, { 0 }, OpRWFlags::kRW | OpRWFlags::kRegPhysId | OpRWFlags::kZExt }, // #40 [ref=2x]
+  { 0x0000000000000000u, 0x0000000000000000u, 0x00, 0, { 0 }, OpRWFlags::kRW | OpRWFlags::kRegPhysId | OpRWFlags::kZExt }, // #41 [ref=3x]
+  { 0x0000000000000000u, 0xFFFFFFFFFFFFFFFFu, 0xFF, 0, { 0 }, OpRWFlags::kWrite | OpRWFlags::kZExt }, // #42 [ref=15x]
+  { 0xFFFFFFFFFFFFFFFFu, 0x0000000000000000u, 0xFF, 0, { 0 }, OpRWFlags::kRead }, // #43 [ref=29x]
+  { 0x0000000000000000u, 0x000000000000000Fu, 0xFF, 0, { 0 }, OpRWFlags::kWrite | OpRWFlags::kZExt }, // #44 [ref=30x]
+  { 0x00000000000003FFu, 0x00000000000003FFu, 0xFF, 0, { 0 }, OpRWFlags::kRW | OpRWFlags::kZExt }, // #45 [ref=22x]
+  { 0x00000000000003FFu, 0x0000000000000000u, 0xFF, 0, { 0 }, OpRWFlags::kRead }, // #46 [ref=13x]
+  { 0x0000000000000000u, 0x00000000000003FFu, 0xFF, 0, { 0 }, OpRWFlags::kWrite | OpRWFlags::kZExt }, // #47 [ref=1x]
+  { 0x0000000000000000u, 0x0000000000000003u, 0xFF, 0, { 0 }, OpRWFlags::kWrite | OpRWFlags::kZExt }, // #48 [ref=17x]
+  { 0x0000000000000000u, 0x0000000000000003u, 0x00, 0, { 0 }, OpRWFlags::kWrite | OpRWFlags::kRegPhysId | OpRWFlags::kZExt }, // #49 [ref=2x]
+  { 0x0000000000000000u, 0x000000000000000Fu, 0x00, 0, { 0 }, OpRWFlags::kWrite | OpRWFlags::kZExt | OpRWFlags::kRegPhysId }, // #50 [ref=9x]
+  { 0x0000000000000000u, 0x0000000000000000u, 0x00, 0, { 0 }, OpRWFlags::kWrite | OpRWFlags::kRegPhysId | OpRWFlags::kZExt }, // #51 [ref=2x]
+  { 0x0000000000000003u, 0x0000000000000000u, 0x02, 0, { 0 }, OpRWFlags::kRead | OpRWFlags::kRegPhysId }, // #52 [ref=4x]
+  { 0x0000000000000000u, 0x0000000000000000u, 0x07, 0, { 0 }, OpRWFlags::kWrite | OpRWFlags::kZExt | OpRWFlags::kMemBaseRW | OpRWFlags::kMemBasePostModify | OpRWFlags::kMemPhysId }, // #53 [ref=3x]
+  { 0x000000000000000Fu, 0x0000000000000000u, 0x02, 0, { 0 }, OpRWFlags::kRead | OpRWFlags::kRegPhysId }, // #54 [ref=23x]
+  { 0x0000000000000000u, 0x0000000000000000u, 0x01, 0, { 0 }, OpRWFlags::kRead | OpRWFlags::kRegPhysId }, // #55 [ref=2x]
+  { 0x0000000000000000u, 0x0000000000000001u, 0xFF, 0, { 0 }, OpRWFlags::kWrite | OpRWFlags::kZExt }, // #56 [ref=14x]
+  { 0x0000000000000000u, 0x0000000000000001u, 0x00, 0, { 0 }, OpRWFlags::kWrite | OpRWFlags::kRegPhysId }, // #57 [ref=1x]
+  { 0x0000000000000000u, 0x0000000000000000u, 0x01, 0, { 0 }, OpRWFlags::kRW | OpRWFlags::kRegPhysId | OpRWFlags::kZExt }, // #58 [ref=3x]
+  { 0x000000000000FFFFu, 0x000000000000FFFFu, 0x07, 0, { 0 }, OpRWFlags::kRW | OpRWFlags::kZExt | OpRWFlags::kMemPhysId }, // #59 [ref=2x]
+  { 0x00000000000000FFu, 0x00000000000000FFu, 0x07, 0, { 0 }, OpRWFlags::kRW | OpRWFlags::kZExt | OpRWFlags::kMemPhysId }, // #60 [ref=1x]
+  { 0x0000000000000000u, 0x0000000000000000u, 0x00, 0, { 0 }, OpRWFlags::kRead | OpRWFlags::kMemPhysId }, // #61 [ref=2x]
+  { 0x000000000000FF00u, 0x0000000000000000u, 0xFF, 0, { 0 }, OpRWFlags::kRead }, // #62 [ref=21x]
+  { 0x0000000000000000u, 0x000000000000FF00u, 0xFF, 0, { 0 }, OpRWFlags::kWrite }, // #63 [ref=1x]
+  { 0x0000000000000000u, 0x0000000000000000u, 0x02, 0, { 0 }, OpRWFlags::kWrite | OpRWFlags::kRegPhysId | OpRWFlags::kZExt }, // #64 [ref=1x]
+  { 0x0000000000000000u, 0x0000000000000000u, 0x02, 0, { 0 }, OpRWFlags::kRead | OpRWFlags::kRegPhysId }, // #65 [ref=1x]
+  { 0x0000000000000000u, 0x000000000000000Fu, 0x01, 0, { 0 }, OpRWFlags::kWrite | OpRWFlags::kZExt | OpRWFlags::kRegPhysId }, // #66 [ref=5x]
+  { 0x0000000000000000u, 0x000000000000FFFFu, 0x00, 0, { 0 }, OpRWFlags::kWrite | OpRWFlags::kZExt | OpRWFlags::kRegPhysId }, // #67 [ref=4x]
+  { 0x0000000000000000u, 0x0000000000000007u, 0xFF, 0, { 0 }, OpRWFlags::kWrite | OpRWFlags::kZExt }, // #68 [ref=2x]
+  { 0x0000000000000001u, 0x0000000000000000u, 0x01, 0, { 0 }, OpRWFlags::kRead | OpRWFlags::kRegPhysId }, // #69 [ref=9x]
+  { 0x0000000000000001u, 0x0000000000000000u, 0x00, 0, { 0 }, OpRWFlags::kRead | OpRWFlags::kRegPhysId }, // #70 [ref=1x]
+  { 0x0000000000000000u, 0x0000000000000001u, 0xFF, 0, { 0 }, OpRWFlags::kWrite }, // #71 [ref=16x]
+  { 0xFFFFFFFFFFFFFFFFu, 0xFFFFFFFFFFFFFFFFu, 0xFF, 0, { 0 }, OpRWFlags::kRW | OpRWFlags::kZExt }, // #72 [ref=8x]
+  { 0x000000000000000Fu, 0x000000000000000Fu, 0xFF, 0, { 0 }, OpRWFlags::kRW | OpRWFlags::kZExt }, // #73 [ref=3x]
+  { 0x0000000000000000u, 0x00000000FFFFFFFFu, 0xFF, 0, { 0 }, OpRWFlags::kWrite | OpRWFlags::kZExt }, // #74 [ref=10x]
+  { 0x00000000FFFFFFFFu, 0x0000000000000000u, 0xFF, 0, { 0 }, OpRWFlags::kRead }, // #75 [ref=18x]
+  { 0x000000000000FFF0u, 0x0000000000000000u, 0xFF, 0, { 0 }, OpRWFlags::kRead }, // #76 [ref=16x]
+  { 0x0000000000000000u, 0x0000000000000000u, 0xFF, 0, { 0 }, OpRWFlags::kRW | OpRWFlags::kUnique | OpRWFlags::kZExt }, // #77 [ref=4x]
+  { 0x000000000000FFFFu, 0x000000000000FFFFu, 0xFF, 0, { 0 }, OpRWFlags::kRW | OpRWFlags::kUnique }, // #78 [ref=3x]
+  { 0x000000000000FFFFu, 0x000000000000FFFFu, 0xFF, 0, { 0 }, OpRWFlags::kRW }, // #79 [ref=12x]
+  { 0x000000000000FFFFu, 0x000000000000FFFFu, 0xFF, 0, { 0 }, OpRWFlags::kRW | OpRWFlags::kUnique | OpRWFlags::kZExt }, // #80 [ref=1x]
+  { 0x000000000000FFFCu, 0x0000000000000000u, 0xFF, 0, { 0 }, OpRWFlags::kRead }, // #81 [ref=8x]
+  { 0x0000000000000000u, 0x0000000000000000u, 0x00, 0, { 0 }, OpRWFlags::kRW | OpRWFlags::kZExt | OpRWFlags::kRegPhysId }, // #82 [ref=1x]
+  { 0x0000000000000000u, 0x00000000000000FFu, 0xFF, 2, { 0 }, OpRWFlags::kWrite | OpRWFlags::kZExt }, // #83 [ref=2x]
+  { 0x0000000000000000u, 0x0000000000000000u, 0xFF, 0, { 0 }, OpRWFlags::kWrite | OpRWFlags::kZExt | OpRWFlags::kConsecutive }, // #84 [ref=2x]
+  { 0x00000000FFFFFFFFu, 0x00000000FFFFFFFFu, 0xFF, 0, { 0 }, OpRWFlags::kRW | OpRWFlags::kZExt }  // #85 [ref=3x]
 };
 
 const InstDB::RWInfoRm InstDB::rw_info_rm_table[] = {
